@@ -2,28 +2,25 @@ package main
 
 // C19 — lists and pagers.
 //
-// Decided clauses (each one an obligation per construct):
-//   a  widgets/list: every store to List.index / List.offset keeps it >= 0 (interval analysis with the
-//      package's own min/max helpers summarised, one dominating guard may be used once); every store to
-//      List.index keeps it <= max(0, len(items)-1); a store to List.items is paired with such a store;
-//      the slice items[offset:] in Draw is reached only with offset <= index (hence <= len(items))
-//   e  widgets/list: at the draw loop offset <= index < offset+height (the viewport follows the selection)
-//   b  widgets/pager: Layout is a typestate machine over its pending line (fresh / dirty / flushed): no
-//      dirty line at return, none overwritten, none stored twice, no append to a stored line; lines reset
-//      before the first flush; the column counter restarts after every flush; a line is full when
-//      col >= width; Draw reaches its draw loop only with 0 <= Offset and Offset clamped to the content,
-//      with the lines laid out for the width recorded from the window
-//   c  vxfw/list: every unsigned subtraction that reaches an index or the scroll state is ordered by the
-//      facts in force at the sink (predicate abstraction over the function's own guards); a decrement at
-//      a function entry is lifted to its call sites; index expressions are within [0, len); the
-//      wantsCursor site is a listed exception whose side conditions are obligations themselves; every
-//      store to cursor is followed by ensureScroll; ensureScroll sets wantsCursor only under
-//      cursor >= top and otherwise re-anchors top = cursor with offset = 0; pending is reset after use
-//   d  every integer division in the anchored files has a divisor the guards make non-zero
-//
-// Engines (local to this file): c19Lin (linear forms over access paths), c19Eval (intervals with callee
-// summaries, B-sign of DESIGN E8), c19Flow (predicate abstraction over go/cfg with ghost typestate bits,
-// U-sub of E8 and the ordering queries of E9 made path sensitive).
+// Decided clauses (one obligation per construct; constructs are found in the supergraph of every root
+// function, i.e. with small unexported same-package helpers inlined, so that extracting or inlining a
+// helper does not change what is checked):
+//   a  widgets/list: every store to List.index / List.offset keeps it >= 0; every store to index keeps it
+//      <= max(0, len(items)-1); a store to items is paired with such a store; every access items[lo:] /
+//      items[i] stays within the slice
+//   e  widgets/list: where the items are accessed for drawing offset <= index < offset+height; an item is
+//      drawn on row (its index - offset); the highlighted item is the one whose index equals List.index
+//   b  widgets/pager: the layout function is a typestate machine over its pending line (fresh / dirty /
+//      stored): nothing dirty at return, never overwritten, stored once, no append after storing; lines is
+//      emptied once before the first store; the column counter advances per cell and restarts after each
+//      store; a line is closed when col >= width; the draw function reaches the lines with 0 <= Offset,
+//      Offset clamped to the content, laid out for the recorded window width; line J is drawn on row J-Offset
+//   c  vxfw/list: unsigned subtractions that reach an index or the scroll state are ordered by the facts in
+//      force; index expressions stay within [0,len); a selection change re-anchors the scroll state
+//      (wantsCursor raised under cursor >= top, or top = cursor with offset = 0) before the function
+//      returns; pending is reset after it is read; the wantsCursor site is a listed exception whose side
+//      conditions are obligations
+//   d  every integer division of the anchored files has a divisor the facts in force make non-zero
 
 import (
 	"fmt"
@@ -32,1908 +29,130 @@ import (
 	"go/types"
 	"math"
 	"os"
-	"sort"
 	"strings"
 
-	"golang.org/x/tools/go/cfg"
 	"golang.org/x/tools/go/packages"
 )
 
 func init() { register("C19", false, runC19) }
 
 // ---------------------------------------------------------------------------------------------
-// access paths and linear forms
+// packages, roots and covered helpers
 // ---------------------------------------------------------------------------------------------
 
-type c19Path struct {
-	root types.Object
-	path []string
+type c19Pkg struct {
+	c       *Ctx
+	name    string
+	pk      *packages.Package
+	info    *types.Info
+	funcs   []*FuncInfo
+	covered map[*FuncInfo]bool
+	parents map[ast.Node]ast.Node
 }
 
-func (p c19Path) String() string {
-	if p.root == nil {
-		return "?"
+// c19LoadPkg finds the helpers that are covered by their callers: unexported, small, and used only in
+// statement-level calls that every analysed caller really inlines. Everything else is a root.
+func c19LoadPkg(c *Ctx, name string) *c19Pkg {
+	pk := c.P.Pkg(name)
+	if pk == nil {
+		return nil
 	}
-	return p.root.Name() + joinDot(p.path)
-}
-
-// c19Chain resolves x, x.f, x.f[i], *x, (x) to a root variable and a field path.
-func c19Chain(info *types.Info, e ast.Expr) (c19Path, bool) {
-	switch t := e.(type) {
-	case *ast.Ident:
-		if v, ok := info.ObjectOf(t).(*types.Var); ok {
-			return c19Path{root: v}, true
+	p := &c19Pkg{c: c, name: name, pk: pk, info: pk.TypesInfo, covered: map[*FuncInfo]bool{}, parents: c.P.Parents(pk)}
+	for _, fi := range c.P.FuncsIn(name) {
+		if fi.Decl.Body != nil {
+			p.funcs = append(p.funcs, fi)
 		}
-	case *ast.ParenExpr:
-		return c19Chain(info, t.X)
-	case *ast.StarExpr:
-		return c19Chain(info, t.X)
-	case *ast.SelectorExpr:
-		if s, ok := info.Selections[t]; ok {
-			if s.Kind() != types.FieldVal {
-				return c19Path{}, false
-			}
-			p, ok := c19Chain(info, t.X)
+	}
+	byObj := map[types.Object]*FuncInfo{}
+	for _, fi := range p.funcs {
+		byObj[fi.Obj] = fi
+	}
+	sites := map[*FuncInfo][]*ast.CallExpr{}
+	bad := map[*FuncInfo]bool{}
+	for _, f := range pk.Syntax {
+		ast.Inspect(f, func(n ast.Node) bool {
+			id, ok := n.(*ast.Ident)
 			if !ok {
-				return p, false
+				return true
 			}
-			return c19Path{p.root, append(append([]string{}, p.path...), t.Sel.Name)}, true
-		}
-		if v, ok := info.ObjectOf(t.Sel).(*types.Var); ok {
-			return c19Path{root: v}, true
-		}
-	case *ast.IndexExpr:
-		p, ok := c19Chain(info, t.X)
-		if !ok {
-			return p, false
-		}
-		return c19Path{p.root, append(append([]string{}, p.path...), "[]")}, true
-	}
-	return c19Path{}, false
-}
-
-// c19ReadPaths lists the access paths read by an expression.
-func c19ReadPaths(info *types.Info, e ast.Node) []c19Path {
-	var out []c19Path
-	var visit func(n ast.Node)
-	visit = func(n ast.Node) {
-		if n == nil {
-			return
-		}
-		ast.Inspect(n, func(m ast.Node) bool {
-			switch t := m.(type) {
-			case *ast.FuncLit:
-				return false
-			case *ast.Ident, *ast.SelectorExpr, *ast.IndexExpr, *ast.StarExpr:
-				if p, ok := c19Chain(info, t.(ast.Expr)); ok {
-					out = append(out, p)
-					// index operands inside the chain are reads of their own
-					cur := t.(ast.Expr)
-					for cur != nil {
-						switch c := cur.(type) {
-						case *ast.IndexExpr:
-							visit(c.Index)
-							cur = c.X
-						case *ast.SelectorExpr:
-							cur = c.X
-						case *ast.StarExpr:
-							cur = c.X
-						case *ast.ParenExpr:
-							cur = c.X
-						default:
-							cur = nil
-						}
-					}
-					return false
+			fi := byObj[p.info.Uses[id]]
+			if fi == nil {
+				return true
+			}
+			var node ast.Node = id
+			if sel, ok := p.parents[id].(*ast.SelectorExpr); ok && sel.Sel == id {
+				node = sel
+			}
+			par := p.parents[node]
+			for {
+				if pe, ok := par.(*ast.ParenExpr); ok {
+					node, par = pe, p.parents[pe]
+					continue
 				}
+				break
 			}
+			call, ok := par.(*ast.CallExpr)
+			if !ok || unparen(call.Fun) != node.(ast.Expr) {
+				bad[fi] = true
+				return true
+			}
+			var stmt ast.Node = p.parents[call]
+			for {
+				if pe, ok := stmt.(*ast.ParenExpr); ok {
+					stmt = p.parents[pe]
+					continue
+				}
+				break
+			}
+			if sc, _ := c19InlineSite(stmt); sc != call {
+				bad[fi] = true
+				return true
+			}
+			sites[fi] = append(sites[fi], call)
 			return true
 		})
 	}
-	visit(e)
-	return out
-}
-
-type c19Term struct {
-	id    string
-	ex    ast.Expr
-	paths []c19Path
-	isLen bool
-}
-
-// affected: does a write to w change the value of the term?
-func (t *c19Term) affected(w c19Path) bool {
-	for _, r := range t.paths {
-		if w.root != r.root {
-			continue
+	for _, fi := range p.funcs {
+		if !ast.IsExported(fi.Decl.Name.Name) && !bad[fi] && len(sites[fi]) > 0 && c19InlinableBody(c, fi) && fi.Decl.Name.Name != "init" && fi.Decl.Name.Name != "main" {
+			p.covered[fi] = true
 		}
-		n := len(w.path)
-		if len(r.path) < n {
-			n = len(r.path)
-		}
-		same := true
-		for i := 0; i < n; i++ {
-			if w.path[i] != r.path[i] {
-				same = false
-				break
+	}
+	// a helper is covered only if every one of its call sites is really inlined in some root's supergraph
+	for changed := true; changed; {
+		changed = false
+		inlined := map[*ast.CallExpr]bool{}
+		for _, fi := range p.roots() {
+			fl := c19NewFlow(c, fi, nil, p.allow)
+			for call := range fl.inlined {
+				inlined[call] = true
 			}
 		}
-		if !same {
-			continue
-		}
-		// an element store does not change len(x)
-		if t.isLen && len(w.path) > len(r.path) && w.path[len(r.path)] == "[]" {
-			continue
-		}
-		return true
-	}
-	return false
-}
-
-type c19Lin struct {
-	coef map[string]int64
-	tm   map[string]*c19Term
-	k    int64
-}
-
-func c19NewLin() *c19Lin { return &c19Lin{coef: map[string]int64{}, tm: map[string]*c19Term{}} }
-
-func (l *c19Lin) clone() *c19Lin {
-	o := c19NewLin()
-	o.k = l.k
-	for id, c := range l.coef {
-		o.coef[id] = c
-		o.tm[id] = l.tm[id]
-	}
-	return o
-}
-
-// plus returns l + s*o.
-func (l *c19Lin) plus(o *c19Lin, s int64) *c19Lin {
-	r := l.clone()
-	r.k += s * o.k
-	for id, c := range o.coef {
-		r.coef[id] += s * c
-		if r.tm[id] == nil {
-			r.tm[id] = o.tm[id]
-		}
-	}
-	for id, c := range r.coef {
-		if c == 0 {
-			delete(r.coef, id)
-			delete(r.tm, id)
-		}
-	}
-	return r
-}
-
-func (l *c19Lin) addK(k int64) *c19Lin { r := l.clone(); r.k += k; return r }
-func (l *c19Lin) neg() *c19Lin         { return c19NewLin().plus(l, -1) }
-
-func (l *c19Lin) ids() []string {
-	var out []string
-	for id, c := range l.coef {
-		if c != 0 {
-			out = append(out, id)
-		}
-	}
-	disp := func(id string) string {
-		if t := l.tm[id]; t != nil && t.ex != nil {
-			return types.ExprString(t.ex)
-		}
-		return id
-	}
-	// ordered by what the term looks like, so that normal forms and messages do not depend on addresses
-	sort.Slice(out, func(i, j int) bool {
-		di, dj := disp(out[i]), disp(out[j])
-		if di != dj {
-			return di < dj
-		}
-		return out[i] < out[j]
-	})
-	return out
-}
-
-func (l *c19Lin) String() string {
-	var parts []string
-	for _, id := range l.ids() {
-		c := l.coef[id]
-		d := id
-		if t := l.tm[id]; t != nil && t.ex != nil {
-			d = types.ExprString(t.ex)
-		}
-		switch c {
-		case 1:
-			parts = append(parts, "+"+d)
-		case -1:
-			parts = append(parts, "-"+d)
-		default:
-			parts = append(parts, fmt.Sprintf("%+d*%s", c, d))
-		}
-	}
-	if l.k != 0 || len(parts) == 0 {
-		parts = append(parts, fmt.Sprintf("%+d", l.k))
-	}
-	return strings.TrimPrefix(strings.Join(parts, ""), "+")
-}
-
-func c19IsIntType(t types.Type) bool {
-	if t == nil {
-		return false
-	}
-	b, ok := t.Underlying().(*types.Basic)
-	return ok && b.Info()&types.IsInteger != 0
-}
-
-func c19IsUnsigned(t types.Type) bool {
-	if t == nil {
-		return false
-	}
-	b, ok := t.Underlying().(*types.Basic)
-	return ok && b.Info()&types.IsUnsigned != 0
-}
-
-func c19IsBuiltin(info *types.Info, call *ast.CallExpr, names ...string) string {
-	id, ok := unparen(call.Fun).(*ast.Ident)
-	if !ok {
-		return ""
-	}
-	b, ok := info.Uses[id].(*types.Builtin)
-	if !ok {
-		return ""
-	}
-	for _, n := range names {
-		if b.Name() == n {
-			return n
-		}
-	}
-	return ""
-}
-
-func c19IsConversion(info *types.Info, call *ast.CallExpr) (types.Type, bool) {
-	if tv, ok := info.Types[call.Fun]; ok && tv.IsType() && len(call.Args) == 1 {
-		return tv.Type, true
-	}
-	return nil, false
-}
-
-func c19NewTerm(info *types.Info, e ast.Expr) *c19Term {
-	e = unparen(e)
-	t := &c19Term{id: termOf(info, e).ID, ex: e, paths: c19ReadPaths(info, e)}
-	if call, ok := e.(*ast.CallExpr); ok && c19IsBuiltin(info, call, "len", "cap") != "" {
-		t.isLen = true
-	}
-	return t
-}
-
-// c19LinOf linearises an integer expression; anything that is not +, -, unary -, a constant
-// factor or an integer conversion becomes an atomic term. Integer conversions are transparent
-// (values are assumed to stay below 2^63; the wrap-around of an unsigned subtraction is what
-// rule C19.c excludes).
-func c19LinOf(info *types.Info, e ast.Expr) *c19Lin {
-	l := c19NewLin()
-	c19LinAdd(info, l, e, 1)
-	for id, c := range l.coef {
-		if c == 0 {
-			delete(l.coef, id)
-			delete(l.tm, id)
-		}
-	}
-	return l
-}
-
-func c19LinAdd(info *types.Info, l *c19Lin, e ast.Expr, s int64) {
-	e = unparen(e)
-	if v, ok := constInt(info, e); ok {
-		l.k += s * v
-		return
-	}
-	switch t := e.(type) {
-	case *ast.UnaryExpr:
-		if t.Op == token.SUB {
-			c19LinAdd(info, l, t.X, -s)
-			return
-		}
-		if t.Op == token.ADD {
-			c19LinAdd(info, l, t.X, s)
-			return
-		}
-	case *ast.BinaryExpr:
-		switch t.Op {
-		case token.ADD:
-			c19LinAdd(info, l, t.X, s)
-			c19LinAdd(info, l, t.Y, s)
-			return
-		case token.SUB:
-			c19LinAdd(info, l, t.X, s)
-			c19LinAdd(info, l, t.Y, -s)
-			return
-		case token.MUL:
-			if v, ok := constInt(info, t.X); ok {
-				c19LinAdd(info, l, t.Y, s*v)
-				return
+		for _, fi := range p.funcs {
+			if !p.covered[fi] {
+				continue
 			}
-			if v, ok := constInt(info, t.Y); ok {
-				c19LinAdd(info, l, t.X, s*v)
-				return
-			}
-		}
-	case *ast.CallExpr:
-		if ty, ok := c19IsConversion(info, t); ok && c19IsIntType(ty) && c19IsIntType(info.TypeOf(t.Args[0])) {
-			c19LinAdd(info, l, t.Args[0], s)
-			return
-		}
-	}
-	tm := c19NewTerm(info, e)
-	l.coef[tm.id] += s
-	if l.tm[tm.id] == nil {
-		l.tm[tm.id] = tm
-	}
-}
-
-type c19Bounds func(t *c19Term) (lo, hi float64)
-
-func (l *c19Lin) lower(b c19Bounds) float64 {
-	v := float64(l.k)
-	for id, c := range l.coef {
-		if c == 0 {
-			continue
-		}
-		lo, hi := b(l.tm[id])
-		if c > 0 {
-			v += float64(c) * lo
-		} else {
-			v += float64(c) * hi
-		}
-		if math.IsInf(v, -1) || math.IsNaN(v) {
-			return math.Inf(-1)
-		}
-	}
-	return v
-}
-
-func (l *c19Lin) upper(b c19Bounds) float64 { return -l.neg().lower(b) }
-
-// ---------------------------------------------------------------------------------------------
-// interval evaluation with callee summaries (B-sign)
-// ---------------------------------------------------------------------------------------------
-
-// c19AV: lo <= v <= hi and v <= L + rel where L is the rule's symbolic bound (max(0,len(items)-1)).
-type c19AV struct{ lo, hi, rel float64 }
-
-func c19Top() c19AV { return c19AV{math.Inf(-1), math.Inf(1), math.Inf(1)} }
-
-func (a c19AV) norm() c19AV {
-	if a.hi < a.rel { // v <= hi <= L + hi because L >= 0
-		a.rel = a.hi
-	}
-	return a
-}
-
-type c19Eval struct {
-	c     *Ctx
-	pk    *packages.Package
-	info  *types.Info
-	field func(ev *c19Eval, sel *ast.SelectorExpr, fv *types.Var) (c19AV, bool) // invariants on fields
-	lenL  func(arg ast.Expr) bool                                               // len(arg) == L+1 (or 0)
-	env   map[types.Object]c19AV
-	depth int
-	memo  map[ast.Expr]c19AV
-}
-
-func (ev *c19Eval) byType(e ast.Expr) c19AV {
-	a := c19Top()
-	if c19IsUnsigned(ev.info.TypeOf(e)) {
-		a.lo = 0
-	}
-	return a
-}
-
-func (ev *c19Eval) eval(e ast.Expr) c19AV {
-	e = unparen(e)
-	if v, ok := constInt(ev.info, e); ok {
-		f := float64(v)
-		return c19AV{f, f, f}
-	}
-	switch t := e.(type) {
-	case *ast.Ident:
-		if o := ev.info.ObjectOf(t); o != nil {
-			if a, ok := ev.env[o]; ok {
-				return a
-			}
-		}
-		return ev.byType(e)
-	case *ast.SelectorExpr:
-		if s, ok := ev.info.Selections[t]; ok && s.Kind() == types.FieldVal && ev.field != nil {
-			if fv, ok := s.Obj().(*types.Var); ok {
-				if a, ok := ev.field(ev, t, fv); ok {
-					return a.norm()
+			for _, call := range sites[fi] {
+				if !inlined[call] {
+					delete(p.covered, fi)
+					changed = true
+					break
 				}
 			}
 		}
-		return ev.byType(e)
-	case *ast.UnaryExpr:
-		if t.Op == token.SUB {
-			a := ev.eval(t.X)
-			return c19AV{-a.hi, -a.lo, math.Inf(1)}.norm()
-		}
-	case *ast.BinaryExpr:
-		if !c19IsIntType(ev.info.TypeOf(e)) {
-			return c19Top()
-		}
-		a, b := ev.eval(t.X), ev.eval(t.Y)
-		switch t.Op {
-		case token.ADD:
-			r := c19AV{a.lo + b.lo, a.hi + b.hi, math.Min(a.rel+b.hi, b.rel+a.hi)}
-			if c19IsUnsigned(ev.info.TypeOf(e)) && r.lo < 0 {
-				r.lo = 0
-			}
-			return r.norm()
-		case token.SUB:
-			if c19IsUnsigned(ev.info.TypeOf(e)) {
-				return ev.byType(e) // may wrap
-			}
-			return c19AV{a.lo - b.hi, a.hi - b.lo, a.rel - b.lo}.norm()
-		case token.MUL:
-			if a.lo >= 0 && b.lo >= 0 {
-				return c19AV{a.lo * b.lo, math.Inf(1), math.Inf(1)}
-			}
-		}
-		return ev.byType(e)
-	case *ast.CallExpr:
-		if ev.depth == 0 && len(ev.env) == 0 {
-			if a, ok := ev.memo[e]; ok {
-				return a
-			}
-			a := ev.call(t)
-			if ev.memo == nil {
-				ev.memo = map[ast.Expr]c19AV{}
-			}
-			ev.memo[e] = a
-			return a
-		}
-		return ev.call(t)
 	}
-	return ev.byType(e)
-}
-
-func (ev *c19Eval) call(call *ast.CallExpr) c19AV {
-	switch c19IsBuiltin(ev.info, call, "len", "cap", "min", "max") {
-	case "len", "cap":
-		a := c19AV{0, math.Inf(1), math.Inf(1)}
-		if len(call.Args) == 1 && ev.lenL != nil && ev.lenL(call.Args[0]) {
-			a.rel = 1
-		}
-		return a
-	case "min":
-		r := ev.eval(call.Args[0])
-		for _, x := range call.Args[1:] {
-			b := ev.eval(x)
-			r = c19AV{math.Min(r.lo, b.lo), math.Min(r.hi, b.hi), math.Min(r.rel, b.rel)}
-		}
-		return r.norm()
-	case "max":
-		r := ev.eval(call.Args[0])
-		for _, x := range call.Args[1:] {
-			b := ev.eval(x)
-			r = c19AV{math.Max(r.lo, b.lo), math.Max(r.hi, b.hi), math.Max(r.rel, b.rel)}
-		}
-		return r.norm()
-	}
-	if ty, ok := c19IsConversion(ev.info, call); ok {
-		if c19IsIntType(ty) && c19IsIntType(ev.info.TypeOf(call.Args[0])) {
-			a := ev.eval(call.Args[0])
-			if c19IsUnsigned(ty) && a.lo < 0 {
-				return c19AV{0, math.Inf(1), math.Inf(1)}
-			}
-			return a
-		}
-		return ev.byType(call)
-	}
-	if fn := calleeOf(ev.info, call); fn != nil && ev.depth < 3 {
-		if a, ok := ev.summary(fn, call); ok {
-			return a
-		}
-	}
-	return ev.byType(call)
-}
-
-// summary evaluates a small repository helper: the join over its return statements of the returned
-// expression, each parameter refined by the linear facts in force at that return.
-func (ev *c19Eval) summary(fn *types.Func, call *ast.CallExpr) (c19AV, bool) {
-	fi := ev.c.P.FuncOfObj(fn)
-	if fi == nil || fi.Decl.Body == nil || fi.Pkg != ev.pk {
-		return c19AV{}, false
-	}
-	sig := fn.Type().(*types.Signature)
-	if sig.Results().Len() != 1 || sig.Variadic() || !c19IsIntType(sig.Results().At(0).Type()) {
-		return c19AV{}, false
-	}
-	if sig.Recv() != nil {
-		// a method: only calls on the current receiver keep the field invariants meaningful
-		sel, ok := unparen(call.Fun).(*ast.SelectorExpr)
-		if !ok {
-			return c19AV{}, false
-		}
-		id, ok := unparen(sel.X).(*ast.Ident)
-		if !ok {
-			return c19AV{}, false
-		}
-		if v, ok := ev.info.ObjectOf(id).(*types.Var); !ok || v.IsField() {
-			return c19AV{}, false
-		}
-	}
-	var params []types.Object
-	for _, f := range fi.Decl.Type.Params.List {
-		for _, n := range f.Names {
-			params = append(params, fi.Pkg.TypesInfo.Defs[n])
-		}
-	}
-	if len(params) != len(call.Args) {
-		return c19AV{}, false
-	}
-	env := map[types.Object]c19AV{}
-	pset := map[types.Object]bool{}
-	for i, p := range params {
-		if p == nil {
-			return c19AV{}, false
-		}
-		env[p] = ev.eval(call.Args[i])
-		pset[p] = true
-	}
-	g := c19Graph(ev.c, fi)
-	// parameters must not be reassigned, named results and closures are not understood
-	if fi.Decl.Type.Results != nil {
-		for _, f := range fi.Decl.Type.Results.List {
-			if len(f.Names) > 0 {
-				return c19AV{}, false
-			}
-		}
-	}
-	unsupported := false
-	ast.Inspect(fi.Decl.Body, func(n ast.Node) bool {
-		switch n.(type) {
-		case *ast.FuncLit, *ast.DeferStmt, *ast.GoStmt:
-			unsupported = true
-		}
-		if n != nil && assignsAny(fi.Pkg.TypesInfo, n, pset) {
-			unsupported = true
-		}
-		return !unsupported
-	})
-	if unsupported {
-		return c19AV{}, false
-	}
-	sub := &c19Eval{c: ev.c, pk: fi.Pkg, info: fi.Pkg.TypesInfo, field: ev.field, lenL: ev.lenL, env: env, depth: ev.depth + 1}
-	rets := g.Find(func(n ast.Node) bool { _, ok := n.(*ast.ReturnStmt); return ok })
-	if len(rets) == 0 {
-		return c19AV{}, false
-	}
-	first := true
-	var out c19AV
-	for _, h := range rets {
-		rs := h.Node.(*ast.ReturnStmt)
-		if len(rs.Results) != 1 {
-			return c19AV{}, false
-		}
-		a := sub.eval(rs.Results[0])
-		if id, ok := unparen(rs.Results[0]).(*ast.Ident); ok {
-			if p := fi.Pkg.TypesInfo.ObjectOf(id); p != nil && pset[p] {
-				pid := fmt.Sprintf("%p", p)
-				other := func(t Term) (c19AV, bool) {
-					if t.ID == "" {
-						return c19AV{0, 0, 0}, true
-					}
-					for q := range pset {
-						if fmt.Sprintf("%p", q) == t.ID {
-							return env[q], true
-						}
-					}
-					return c19AV{}, false
-				}
-				for _, f := range g.FactsAt(h.Loc) {
-					if f.Kind != "lin" {
-						continue
-					}
-					k := float64(f.K)
-					if f.A.ID == pid { // p - B <= K
-						if b, ok := other(f.B); ok {
-							a.hi = math.Min(a.hi, b.hi+k)
-							a.rel = math.Min(a.rel, b.rel+k)
-						}
-					}
-					if f.B.ID == pid { // A - p <= K
-						if b, ok := other(f.A); ok {
-							a.lo = math.Max(a.lo, b.lo-k)
-						}
-					}
-				}
-			}
-		}
-		a = a.norm()
-		if first {
-			out, first = a, false
-		} else {
-			out = c19AV{math.Min(out.lo, a.lo), math.Max(out.hi, a.hi), math.Max(out.rel, a.rel)}
-		}
-	}
-	return out, true
-}
-
-func (ev *c19Eval) bounds() c19Bounds {
-	return func(t *c19Term) (float64, float64) {
-		if t == nil || t.ex == nil {
-			return math.Inf(-1), math.Inf(1)
-		}
-		a := ev.eval(t.ex)
-		return a.lo, a.hi
-	}
-}
-
-// c19TypeBounds: bounds from types alone (unsigned and len are >= 0).
-func c19TypeBounds(c *Ctx, pk *packages.Package) c19Bounds {
-	ev := &c19Eval{c: c, pk: pk, info: pk.TypesInfo, depth: 3}
-	return ev.bounds()
-}
-
-// ---------------------------------------------------------------------------------------------
-// predicate abstraction over the CFG
-// ---------------------------------------------------------------------------------------------
-
-type c19Pred struct {
-	kind  string // "le": base <= k   "eq": base == k   "bool": term is true
-	base  *c19Lin
-	k     int64
-	term  *c19Term
-	key   string
-	bit   int
-	terms []*c19Term
-	bkey  string
-	q1    *c19Query // le: base <= k ; eq: base <= k
-	q2    *c19Query // eq: base <= k-1
-}
-
-func (p *c19Pred) String() string {
-	switch p.kind {
-	case "le":
-		return fmt.Sprintf("%s <= %d", p.base, p.k)
-	case "eq":
-		return fmt.Sprintf("%s == %d", p.base, p.k)
-	}
-	return types.ExprString(p.term.ex)
-}
-
-type c19Form struct {
-	op byte // 'a' atom, 'n' not, '&', '|', 'T', 'F', 'U'
-	p  *c19Pred
-	xs []*c19Form
-}
-
-var (
-	c19T = &c19Form{op: 'T'}
-	c19F = &c19Form{op: 'F'}
-	c19U = &c19Form{op: 'U'}
-)
-
-func c19Not(x *c19Form) *c19Form {
-	switch x.op {
-	case 'T':
-		return c19F
-	case 'F':
-		return c19T
-	case 'U':
-		return c19U
-	case 'n':
-		return x.xs[0]
-	}
-	return &c19Form{op: 'n', xs: []*c19Form{x}}
-}
-func c19And(xs ...*c19Form) *c19Form { return &c19Form{op: '&', xs: xs} }
-func c19Or(xs ...*c19Form) *c19Form  { return &c19Form{op: '|', xs: xs} }
-
-func (f *c19Form) preds(out map[*c19Pred]bool) {
-	if f.op == 'a' {
-		out[f.p] = true
-	}
-	for _, x := range f.xs {
-		x.preds(out)
-	}
-}
-
-func (f *c19Form) String() string {
-	switch f.op {
-	case 'a':
-		return f.p.String()
-	case 'n':
-		return "!(" + f.xs[0].String() + ")"
-	case '&', '|':
-		var s []string
-		for _, x := range f.xs {
-			s = append(s, x.String())
-		}
-		sep := " && "
-		if f.op == '|' {
-			sep = " || "
-		}
-		return "(" + strings.Join(s, sep) + ")"
-	case 'T':
-		return "true"
-	case 'F':
-		return "false"
-	}
-	return "?"
-}
-
-func c19Normalise(l *c19Lin) (base *c19Lin, c int64, flipped bool) {
-	base = l.clone()
-	base.k = 0
-	c = l.k
-	ids := base.ids()
-	if len(ids) > 0 && base.coef[ids[0]] < 0 {
-		base = base.neg()
-		flipped = true
-	}
-	return
-}
-
-func c19BaseKey(b *c19Lin) string {
-	var s []string
-	for _, id := range b.ids() {
-		s = append(s, fmt.Sprintf("%s*%d", id, b.coef[id]))
-	}
-	return strings.Join(s, "+")
-}
-
-type c19Effect struct {
-	kind    byte // 'a' assignment, 'h' havoc below lhs, 'x' havoc everything
-	lhs     c19Path
-	lhsID   string
-	rhs     *c19Lin
-	rhsBool int
-	plan    []c19Plan
-	planned bool
-}
-
-type c19Plan struct {
-	p    *c19Pred
-	mode byte // 'u' unknown, 'b' constant, 's' substitution evaluated in the old state
-	val  int
-	cs   *c19Cons
-}
-
-const c19GhostShift = 24
-
-type c19Flow struct {
-	c      *Ctx
-	g      *FG
-	info   *types.Info
-	bounds c19Bounds
-
-	all      map[string]*c19Pred
-	tracked  []*c19Pred
-	groups   map[string][]*c19Pred
-	cond     map[*cfg.Block]*c19Form
-	seeds    map[string]bool
-	seedRoot map[types.Object]bool
-	effs     map[ast.Node][]*c19Effect
-
-	ghostInit uint32
-	ghost     func(n ast.Node, st uint32) []uint32
-	feasibleX func(fl *c19Flow, st uint32) bool
-
-	in      map[*cfg.Block]map[uint32]bool
-	feas    map[uint32]bool
-	queries map[string]*c19Query
-	bcache  map[string][2]float64
-	rngEffs map[*cfg.Block][]*c19Effect
-	err     string
-	solved  bool
-}
-
-func c19NewFlow(c *Ctx, g *FG, bounds c19Bounds) *c19Flow {
-	return &c19Flow{c: c, g: g, info: g.Info, bounds: bounds, all: map[string]*c19Pred{}, groups: map[string][]*c19Pred{},
-		cond: map[*cfg.Block]*c19Form{}, seeds: map[string]bool{}, seedRoot: map[types.Object]bool{}, effs: map[ast.Node][]*c19Effect{},
-		in: map[*cfg.Block]map[uint32]bool{}, feas: map[uint32]bool{}, queries: map[string]*c19Query{}, bcache: map[string][2]float64{},
-		rngEffs: map[*cfg.Block][]*c19Effect{}}
-}
-
-func (fl *c19Flow) pred(kind string, base *c19Lin, k int64, term *c19Term) *c19Pred {
-	var key string
-	if kind == "bool" {
-		key = "bool|" + term.id
-	} else {
-		key = fmt.Sprintf("%s|%s|%d", kind, c19BaseKey(base), k)
-	}
-	if p, ok := fl.all[key]; ok {
-		return p
-	}
-	p := &c19Pred{kind: kind, base: base, k: k, term: term, key: key, bit: -1}
-	if kind == "bool" {
-		p.terms = []*c19Term{term}
-	} else {
-		for _, id := range base.ids() {
-			p.terms = append(p.terms, base.tm[id])
-		}
-	}
-	fl.all[key] = p
 	return p
 }
 
-// le: l <= 0
-func (fl *c19Flow) le(l *c19Lin) *c19Form {
-	base, c, flipped := c19Normalise(l)
-	if len(base.ids()) == 0 {
-		if c <= 0 {
-			return c19T
-		}
-		return c19F
-	}
-	if !flipped {
-		return &c19Form{op: 'a', p: fl.pred("le", base, -c, nil)}
-	}
-	return c19Not(&c19Form{op: 'a', p: fl.pred("le", base, c-1, nil)})
-}
+func (p *c19Pkg) allow(fi *FuncInfo) bool { return p.covered[fi] }
 
-// ge0: l >= 0
-func (fl *c19Flow) ge0(l *c19Lin) *c19Form { return fl.le(l.neg()) }
-
-// eq: l == 0
-func (fl *c19Flow) eq(l *c19Lin) *c19Form {
-	base, c, flipped := c19Normalise(l)
-	if len(base.ids()) == 0 {
-		if c == 0 {
-			return c19T
-		}
-		return c19F
-	}
-	v := -c
-	if flipped {
-		v = c
-	}
-	return &c19Form{op: 'a', p: fl.pred("eq", base, v, nil)}
-}
-
-func (fl *c19Flow) boolAtom(e ast.Expr) *c19Form {
-	if _, ok := c19Chain(fl.info, e); !ok {
-		return c19U
-	}
-	return &c19Form{op: 'a', p: fl.pred("bool", nil, 0, c19NewTerm(fl.info, e))}
-}
-
-func c19BoolConst(info *types.Info, e ast.Expr) (bool, bool) {
-	if tv, ok := info.Types[e]; ok && tv.Value != nil {
-		if b, ok := tv.Type.Underlying().(*types.Basic); ok && b.Info()&types.IsBoolean != 0 {
-			return tv.Value.String() == "true", true
-		}
-	}
-	return false, false
-}
-
-func c19IsBoolType(t types.Type) bool {
-	if t == nil {
-		return false
-	}
-	b, ok := t.Underlying().(*types.Basic)
-	return ok && b.Info()&types.IsBoolean != 0
-}
-
-// form translates a condition.
-func (fl *c19Flow) form(e ast.Expr) *c19Form {
-	e = unparen(e)
-	if v, ok := c19BoolConst(fl.info, e); ok {
-		if v {
-			return c19T
-		}
-		return c19F
-	}
-	switch t := e.(type) {
-	case *ast.UnaryExpr:
-		if t.Op == token.NOT {
-			return c19Not(fl.form(t.X))
-		}
-	case *ast.BinaryExpr:
-		switch t.Op {
-		case token.LAND:
-			return c19And(fl.form(t.X), fl.form(t.Y))
-		case token.LOR:
-			return c19Or(fl.form(t.X), fl.form(t.Y))
-		case token.EQL, token.NEQ, token.LSS, token.LEQ, token.GTR, token.GEQ:
-			return fl.cmp(t.X, t.Op, t.Y)
-		}
-	case *ast.Ident, *ast.SelectorExpr:
-		if c19IsBoolType(fl.info.TypeOf(e)) {
-			return fl.boolAtom(e)
-		}
-	}
-	return c19U
-}
-
-func (fl *c19Flow) cmp(x ast.Expr, op token.Token, y ast.Expr) *c19Form {
-	if c19IsBoolType(fl.info.TypeOf(x)) && (op == token.EQL || op == token.NEQ) {
-		var f *c19Form
-		if v, ok := c19BoolConst(fl.info, y); ok {
-			f = fl.form(x)
-			if !v {
-				f = c19Not(f)
-			}
-		} else if v, ok := c19BoolConst(fl.info, x); ok {
-			f = fl.form(y)
-			if !v {
-				f = c19Not(f)
-			}
-		} else {
-			return c19U
-		}
-		if op == token.NEQ {
-			f = c19Not(f)
-		}
-		return f
-	}
-	if !isIntegerExpr(fl.info, x) || !isIntegerExpr(fl.info, y) {
-		return c19U
-	}
-	l := c19LinOf(fl.info, x).plus(c19LinOf(fl.info, y), -1) // x - y
-	switch op {
-	case token.LSS:
-		return fl.le(l.addK(1))
-	case token.LEQ:
-		return fl.le(l)
-	case token.GTR:
-		return fl.le(l.neg().addK(1))
-	case token.GEQ:
-		return fl.le(l.neg())
-	case token.EQL:
-		return fl.eq(l)
-	case token.NEQ:
-		return c19Not(fl.eq(l))
-	}
-	return c19U
-}
-
-func (fl *c19Flow) goal(f *c19Form) *c19Form {
-	ps := map[*c19Pred]bool{}
-	f.preds(ps)
-	for p := range ps {
-		for _, t := range p.terms {
-			fl.seeds[t.id] = true
-		}
-	}
-	return f
-}
-
-// goalAt registers a goal checked at l: the conditions that guard l are relevant as well (their
-// predicates may be correlated with the goal only through control flow).
-func (fl *c19Flow) goalAt(f *c19Form, l Loc) *c19Form {
-	fl.goal(f)
-	for _, gd := range fl.g.Guards(l) {
-		var gf *c19Form
-		if gd.Cond.Tag != nil {
-			gf = fl.cmp(gd.Cond.Tag, token.EQL, gd.Cond.Expr)
-		} else {
-			gf = fl.form(gd.Cond.Expr)
-		}
-		fl.goal(gf)
-	}
-	return f
-}
-
-// eval3: 1 true, 0 false, -1 unknown
-func (fl *c19Flow) eval3(f *c19Form, st uint32) int {
-	switch f.op {
-	case 'T':
-		return 1
-	case 'F':
-		return 0
-	case 'U':
-		return -1
-	case 'a':
-		if f.p.bit >= 0 {
-			return int(st >> uint(f.p.bit) & 1)
-		}
-		return -1
-	case 'n':
-		v := fl.eval3(f.xs[0], st)
-		if v < 0 {
-			return -1
-		}
-		return 1 - v
-	case '&':
-		r := 1
-		for _, x := range f.xs {
-			v := fl.eval3(x, st)
-			if v == 0 {
-				return 0
-			}
-			if v < 0 {
-				r = -1
-			}
-		}
-		return r
-	case '|':
-		r := 0
-		for _, x := range f.xs {
-			v := fl.eval3(x, st)
-			if v == 1 {
-				return 1
-			}
-			if v < 0 {
-				r = -1
-			}
-		}
-		return r
-	}
-	return -1
-}
-
-// c19Query is the question "base <= v"; what the static bounds and each single fact of a state
-// say about it is tabulated once.
-type c19Query struct {
-	base   *c19Lin
-	bkey   string
-	v      int64
-	bound  int
-	byFact [][2]int8
-	ready  bool
-}
-
-func (fl *c19Flow) query(base *c19Lin, v int64) *c19Query {
-	bkey := c19BaseKey(base)
-	key := fmt.Sprintf("%s|%d", bkey, v)
-	if q, ok := fl.queries[key]; ok {
-		return q
-	}
-	q := &c19Query{base: base, bkey: bkey, v: v}
-	fl.queries[key] = q
-	return q
-}
-
-// facts: the linear expressions known to be >= 0 when the predicate has value val.
-func (p *c19Pred) facts(val int) []*c19Lin {
-	switch {
-	case p.kind == "le" && val == 1:
-		return []*c19Lin{p.base.neg().addK(p.k)}
-	case p.kind == "le":
-		return []*c19Lin{p.base.addK(-p.k - 1)}
-	case p.kind == "eq" && val == 1:
-		return []*c19Lin{p.base.neg().addK(p.k), p.base.addK(-p.k)}
-	}
-	return nil
-}
-
-func (fl *c19Flow) prepare(q *c19Query) {
-	if q.ready {
-		return
-	}
-	q.ready = true
-	want := q.base.neg().addK(q.v)  // v - base >= 0
-	refute := q.base.addK(-q.v - 1) // base - v - 1 >= 0
-	q.bound = -1
-	if want.lower(fl.bounds) >= 0 {
-		q.bound = 1
-	} else if refute.lower(fl.bounds) >= 0 {
-		q.bound = 0
-	}
-	q.byFact = make([][2]int8, len(fl.tracked))
-	for i, p := range fl.tracked {
-		q.byFact[i] = [2]int8{-1, -1}
-		for val := 0; val < 2; val++ {
-			for _, m := range p.facts(val) {
-				// one fact used once: goal - fact has a non-negative lower bound
-				if want.plus(m, -1).lower(fl.bounds) >= 0 {
-					q.byFact[i][val] = 1
-					break
-				}
-				if refute.plus(m, -1).lower(fl.bounds) >= 0 {
-					q.byFact[i][val] = 0
-					break
-				}
-			}
-		}
-	}
-}
-
-func (fl *c19Flow) interval(st uint32, base *c19Lin, bkey string) (float64, float64) {
-	sb, ok := fl.bcache[bkey]
-	if !ok {
-		sb = [2]float64{base.lower(fl.bounds), base.upper(fl.bounds)}
-		fl.bcache[bkey] = sb
-	}
-	lo, hi := sb[0], sb[1]
-	grp := fl.groups[bkey]
-	for _, p := range grp {
-		v := st >> uint(p.bit) & 1
-		k := float64(p.k)
-		switch p.kind {
-		case "le":
-			if v == 1 {
-				hi = math.Min(hi, k)
-			} else {
-				lo = math.Max(lo, k+1)
-			}
-		case "eq":
-			if v == 1 {
-				lo, hi = math.Max(lo, k), math.Min(hi, k)
-			}
-		}
-	}
-	for changed := true; changed; {
-		changed = false
-		for _, p := range grp {
-			if p.kind == "eq" && st>>uint(p.bit)&1 == 0 && lo <= hi {
-				if lo == float64(p.k) {
-					lo++
-					changed = true
-				}
-				if hi == float64(p.k) {
-					hi--
-					changed = true
-				}
-			}
-		}
-	}
-	return lo, hi
-}
-
-// evalQ decides base <= v in a state: by the interval of the base (bounds from types and the
-// predicates on the same base), or with one other fact of the state used once.
-func (fl *c19Flow) evalQ(st uint32, q *c19Query, skipOwn bool) int {
-	fl.prepare(q)
-	if !skipOwn {
-		lo, hi := fl.interval(st, q.base, q.bkey)
-		if hi <= float64(q.v) {
-			return 1
-		}
-		if lo > float64(q.v) {
-			return 0
-		}
-	}
-	if q.bound >= 0 {
-		return q.bound
-	}
-	for i, p := range fl.tracked {
-		if p.kind == "bool" || (skipOwn && p.bkey == q.bkey) {
-			continue
-		}
-		if r := q.byFact[i][st>>uint(p.bit)&1]; r >= 0 {
-			return int(r)
-		}
-	}
-	return -1
-}
-
-// c19Cons is a prepared constraint l <= 0 or l == 0.
-type c19Cons struct {
-	constVal int
-	kind     string
-	flipped  bool
-	q1, q2   *c19Query
-	eqKey    string
-}
-
-func (fl *c19Flow) cons(l *c19Lin, kind string) *c19Cons {
-	base, c, flipped := c19Normalise(l)
-	cs := &c19Cons{constVal: -1, kind: kind, flipped: flipped}
-	if len(base.ids()) == 0 {
-		ok := c <= 0
-		if kind == "eq" {
-			ok = c == 0
-		}
-		cs.constVal = 0
-		if ok {
-			cs.constVal = 1
-		}
-		return cs
-	}
-	if kind == "le" {
-		if !flipped {
-			cs.q1 = fl.query(base, -c)
-		} else {
-			cs.q1 = fl.query(base, c-1)
-		}
-		return cs
-	}
-	v := -c
-	if flipped {
-		v = c
-	}
-	cs.q1, cs.q2 = fl.query(base, v), fl.query(base, v-1)
-	cs.eqKey = fmt.Sprintf("eq|%s|%d", c19BaseKey(base), v)
-	return cs
-}
-
-func (fl *c19Flow) evalC(st uint32, cs *c19Cons) int {
-	if cs.constVal >= 0 {
-		return cs.constVal
-	}
-	neg3 := func(v int) int {
-		if v < 0 {
-			return v
-		}
-		return 1 - v
-	}
-	if cs.kind == "le" {
-		if !cs.flipped {
-			return fl.evalQ(st, cs.q1, false)
-		}
-		return neg3(fl.evalQ(st, cs.q1, false))
-	}
-	if p, ok := fl.all[cs.eqKey]; ok && p.bit >= 0 {
-		return int(st >> uint(p.bit) & 1)
-	}
-	a := fl.evalQ(st, cs.q1, false)
-	b := neg3(fl.evalQ(st, cs.q2, false))
-	if a == 0 || b == 0 {
-		return 0
-	}
-	if a == 1 && b == 1 {
-		return 1
-	}
-	return -1
-}
-
-func (fl *c19Flow) feasible(st uint32) bool {
-	pm := st & (1<<c19GhostShift - 1)
-	ok, seen := fl.feas[pm]
-	if !seen {
-		ok = true
-		for bkey, grp := range fl.groups {
-			lo, hi := fl.interval(pm, grp[0].base, bkey)
-			if lo > hi {
-				ok = false
-				break
-			}
-		}
-		// a predicate's value must not contradict what the bounds or one fact of another group imply
-		for _, p := range fl.tracked {
-			if !ok {
-				break
-			}
-			if p.kind == "bool" {
-				continue
-			}
-			v := int(pm >> uint(p.bit) & 1)
-			switch p.kind {
-			case "le":
-				if d := fl.evalQ(pm, p.q1, true); d >= 0 && d != v {
-					ok = false
-				}
-			case "eq":
-				if v == 1 && (fl.evalQ(pm, p.q1, true) == 0 || fl.evalQ(pm, p.q2, true) == 1) {
-					ok = false
-				}
-			}
-		}
-		fl.feas[pm] = ok
-	}
-	return ok
-}
-
-// consistent: feasible, and the ghost part agrees with the predicates (checked after the ghost update of a node).
-func (fl *c19Flow) consistent(st uint32) bool {
-	return fl.feasible(st) && (fl.feasibleX == nil || fl.feasibleX(fl, st))
-}
-
-// ---- effects of a CFG node
-
-var c19ModMemo = map[*types.Func][][]string{}
-var c19ModAll = map[*types.Func]bool{}
-
-// c19ModSet: the receiver-relative field paths a repository method may write (nil,false = anything).
-func c19ModSet(c *Ctx, fn *types.Func, visiting map[*types.Func]bool) ([][]string, bool) {
-	if c19ModAll[fn] {
-		return nil, false
-	}
-	if m, ok := c19ModMemo[fn]; ok {
-		return m, true
-	}
-	fi := c.P.FuncOfObj(fn)
-	if fi == nil || fi.Decl.Body == nil || fi.Decl.Recv == nil || len(fi.Decl.Recv.List) != 1 || len(fi.Decl.Recv.List[0].Names) != 1 || visiting[fn] {
-		return nil, false
-	}
-	visiting[fn] = true
-	defer delete(visiting, fn)
-	info := fi.Pkg.TypesInfo
-	recv := info.Defs[fi.Decl.Recv.List[0].Names[0]]
-	var out [][]string
-	all := false
-	add := func(e ast.Expr) {
-		if p, ok := c19Chain(info, e); ok {
-			if p.root == recv {
-				out = append(out, p.path)
-			}
-		} else if rootObj(info, e) == recv {
-			all = true
-		}
-	}
-	ast.Inspect(fi.Decl.Body, func(n ast.Node) bool {
-		switch s := n.(type) {
-		case *ast.AssignStmt:
-			for _, l := range s.Lhs {
-				add(l)
-			}
-		case *ast.IncDecStmt:
-			add(s.X)
-		case *ast.RangeStmt:
-			if s.Key != nil {
-				add(s.Key)
-			}
-			if s.Value != nil {
-				add(s.Value)
-			}
-		case *ast.UnaryExpr:
-			if s.Op == token.AND {
-				add(s.X)
-			}
-		case *ast.CallExpr:
-			for _, a := range s.Args {
-				if id, ok := unparen(a).(*ast.Ident); ok && info.ObjectOf(id) == recv {
-					all = true
-				}
-			}
-			if sel, ok := unparen(s.Fun).(*ast.SelectorExpr); ok {
-				if ss, ok := info.Selections[sel]; ok && ss.Kind() == types.MethodVal {
-					m := ss.Obj().(*types.Func)
-					if p, ok := c19Chain(info, sel.X); ok && p.root == recv {
-						_, ptr := m.Type().(*types.Signature).Recv().Type().(*types.Pointer)
-						if ptr {
-							if len(p.path) == 0 {
-								if sub, ok := c19ModSet(c, m, visiting); ok {
-									out = append(out, sub...)
-								} else {
-									all = true
-								}
-							} else {
-								out = append(out, p.path)
-							}
-						}
-					}
-				}
-			}
-		}
-		return true
-	})
-	if all {
-		c19ModAll[fn] = true
-		return nil, false
-	}
-	c19ModMemo[fn] = out
-	return out, true
-}
-
-func (fl *c19Flow) callEffects(call *ast.CallExpr) []c19Effect {
-	var out []c19Effect
-	info := fl.info
-	if _, ok := c19IsConversion(info, call); ok {
-		return nil
-	}
-	if id, ok := unparen(call.Fun).(*ast.Ident); ok {
-		if _, ok := info.Uses[id].(*types.Builtin); ok {
-			return nil
-		}
-	}
-	if sel, ok := unparen(call.Fun).(*ast.SelectorExpr); ok {
-		if ss, ok := info.Selections[sel]; ok && ss.Kind() == types.MethodVal {
-			m := ss.Obj().(*types.Func)
-			if sig, ok := m.Type().(*types.Signature); ok && sig.Recv() != nil {
-				if _, ptr := sig.Recv().Type().(*types.Pointer); ptr {
-					if p, ok := c19Chain(info, sel.X); ok {
-						if mods, ok := c19ModSet(fl.c, m, map[*types.Func]bool{}); ok {
-							for _, suffix := range mods {
-								out = append(out, c19Effect{kind: 'h', lhs: c19Path{p.root, append(append([]string{}, p.path...), suffix...)}})
-							}
-						} else {
-							out = append(out, c19Effect{kind: 'h', lhs: p})
-						}
-					} else if !types.IsInterface(info.TypeOf(sel.X)) {
-						out = append(out, c19Effect{kind: 'x'})
-					}
-				}
-			}
-		}
-	}
-	for _, a := range call.Args {
-		a = unparen(a)
-		t := info.TypeOf(a)
-		if t == nil {
-			continue
-		}
-		switch t.Underlying().(type) {
-		case *types.Pointer:
-			if u, ok := a.(*ast.UnaryExpr); ok && u.Op == token.AND {
-				continue // handled as an address-of
-			}
-			if p, ok := c19Chain(info, a); ok {
-				out = append(out, c19Effect{kind: 'h', lhs: p})
-			}
-		case *types.Slice, *types.Map:
-			if p, ok := c19Chain(info, a); ok {
-				out = append(out, c19Effect{kind: 'h', lhs: c19Path{p.root, append(append([]string{}, p.path...), "[]")}})
-			}
+func (p *c19Pkg) roots() []*FuncInfo {
+	var out []*FuncInfo
+	for _, fi := range p.funcs {
+		if !p.covered[fi] {
+			out = append(out, fi)
 		}
 	}
 	return out
-}
-
-func (fl *c19Flow) assignEffect(lhs, rhs ast.Expr, tok token.Token) c19Effect {
-	info := fl.info
-	if id, ok := unparen(lhs).(*ast.Ident); ok && id.Name == "_" {
-		return c19Effect{kind: 0}
-	}
-	p, ok := c19Chain(info, lhs)
-	if !ok {
-		return c19Effect{kind: 'x'}
-	}
-	ef := c19Effect{kind: 'a', lhs: p, lhsID: termOf(info, unparen(lhs)).ID, rhsBool: -1}
-	if rhs == nil {
-		return ef
-	}
-	if c19IsIntType(info.TypeOf(lhs)) && c19IsIntType(info.TypeOf(rhs)) {
-		switch tok {
-		case token.ASSIGN, token.DEFINE:
-			ef.rhs = c19LinOf(info, rhs)
-		case token.ADD_ASSIGN:
-			ef.rhs = c19LinOf(info, lhs).plus(c19LinOf(info, rhs), 1)
-		case token.SUB_ASSIGN:
-			ef.rhs = c19LinOf(info, lhs).plus(c19LinOf(info, rhs), -1)
-		}
-	}
-	if tok == token.ASSIGN || tok == token.DEFINE {
-		if v, ok := c19BoolConst(info, rhs); ok {
-			ef.rhsBool = 0
-			if v {
-				ef.rhsBool = 1
-			}
-		}
-	}
-	return ef
-}
-
-func (fl *c19Flow) effectsOf(n ast.Node) []*c19Effect {
-	if e, ok := fl.effs[n]; ok {
-		return e
-	}
-	var calls, assigns []c19Effect
-	inspectNoLit(n, func(m ast.Node) bool {
-		switch s := m.(type) {
-		case *ast.FuncLit:
-			if m != n {
-				fl.err = "function literal inside " + fl.g.Name
-			}
-		case *ast.GoStmt, *ast.DeferStmt:
-			fl.err = "go/defer inside " + fl.g.Name
-		case *ast.CallExpr:
-			calls = append(calls, fl.callEffects(s)...)
-		case *ast.UnaryExpr:
-			if s.Op == token.AND {
-				if _, isLit := unparen(s.X).(*ast.CompositeLit); !isLit {
-					if p, ok := c19Chain(fl.info, s.X); ok {
-						calls = append(calls, c19Effect{kind: 'h', lhs: p})
-					}
-				}
-			}
-		case *ast.AssignStmt:
-			if len(s.Lhs) == 1 && len(s.Rhs) == 1 {
-				assigns = append(assigns, fl.assignEffect(s.Lhs[0], s.Rhs[0], s.Tok))
-			} else {
-				for _, l := range s.Lhs {
-					assigns = append(assigns, fl.assignEffect(l, nil, s.Tok))
-				}
-			}
-		case *ast.IncDecStmt:
-			ef := fl.assignEffect(s.X, nil, token.ASSIGN)
-			if ef.kind == 'a' && c19IsIntType(fl.info.TypeOf(s.X)) {
-				d := int64(1)
-				if s.Tok == token.DEC {
-					d = -1
-				}
-				ef.rhs = c19LinOf(fl.info, s.X).addK(d)
-			}
-			assigns = append(assigns, ef)
-		case *ast.DeclStmt:
-			if gd, ok := s.Decl.(*ast.GenDecl); ok && gd.Tok == token.VAR {
-				for _, sp := range gd.Specs {
-					vs, ok := sp.(*ast.ValueSpec)
-					if !ok {
-						continue
-					}
-					for i, name := range vs.Names {
-						if len(vs.Values) == len(vs.Names) {
-							assigns = append(assigns, fl.assignEffect(name, vs.Values[i], token.DEFINE))
-						} else if len(vs.Values) == 0 {
-							ef := fl.assignEffect(name, nil, token.DEFINE)
-							if ef.kind == 'a' {
-								if c19IsIntType(fl.info.TypeOf(name)) {
-									ef.rhs = c19NewLin()
-								}
-								if c19IsBoolType(fl.info.TypeOf(name)) {
-									ef.rhsBool = 0
-								}
-							}
-							assigns = append(assigns, ef)
-						} else {
-							assigns = append(assigns, fl.assignEffect(name, nil, token.DEFINE))
-						}
-					}
-				}
-			}
-		}
-		return true
-	})
-	var out []*c19Effect
-	for _, ef := range append(calls, assigns...) {
-		ef := ef
-		out = append(out, &ef)
-	}
-	fl.effs[n] = out
-	return out
-}
-
-func (p *c19Pred) affectedBy(w c19Path) bool {
-	for _, t := range p.terms {
-		if t.affected(w) {
-			return true
-		}
-	}
-	return false
-}
-
-func (fl *c19Flow) expand(out map[uint32]bool, st uint32, unknown []int) {
-	n := len(unknown)
-	for m := 0; m < 1<<uint(n); m++ {
-		s := st
-		for i, b := range unknown {
-			s &^= 1 << uint(b)
-			if m>>uint(i)&1 == 1 {
-				s |= 1 << uint(b)
-			}
-		}
-		if fl.feasible(s) {
-			out[s] = true
-		}
-	}
-}
-
-func (fl *c19Flow) planOf(ef *c19Effect) []c19Plan {
-	if ef.planned {
-		return ef.plan
-	}
-	ef.planned = true
-	for _, p := range fl.tracked {
-		if ef.kind != 'x' && !p.affectedBy(ef.lhs) {
-			continue
-		}
-		pl := c19Plan{p: p, mode: 'u'}
-		if ef.kind == 'a' {
-			switch {
-			case p.kind == "bool":
-				if p.term.id == ef.lhsID && ef.rhsBool >= 0 {
-					pl.mode, pl.val = 'b', ef.rhsBool
-				}
-			case ef.rhs != nil && p.base.coef[ef.lhsID] != 0:
-				only := true
-				for _, t := range p.terms {
-					if t.id != ef.lhsID && t.affected(ef.lhs) {
-						only = false
-					}
-				}
-				if only {
-					c := p.base.coef[ef.lhsID]
-					l := p.base.clone()
-					delete(l.coef, ef.lhsID)
-					delete(l.tm, ef.lhsID)
-					l = l.plus(ef.rhs, c).addK(-p.k) // the predicate after the store: l <= 0 / l == 0 over the old values
-					pl.mode, pl.cs = 's', fl.cons(l, p.kind)
-				}
-			}
-		}
-		ef.plan = append(ef.plan, pl)
-	}
-	return ef.plan
-}
-
-func (fl *c19Flow) applyEffect(states map[uint32]bool, ef *c19Effect) map[uint32]bool {
-	if ef.kind == 0 {
-		return states
-	}
-	plan := fl.planOf(ef)
-	if len(plan) == 0 {
-		return states
-	}
-	out := map[uint32]bool{}
-	var unknown []int
-	for st := range states {
-		ns := st
-		unknown = unknown[:0]
-		for _, pl := range plan {
-			val := -1
-			switch pl.mode {
-			case 'b':
-				val = pl.val
-			case 's':
-				val = fl.evalC(st, pl.cs)
-			}
-			if val < 0 {
-				unknown = append(unknown, pl.p.bit)
-			} else {
-				ns &^= 1 << uint(pl.p.bit)
-				ns |= uint32(val) << uint(pl.p.bit)
-			}
-		}
-		fl.expand(out, ns, unknown)
-	}
-	return out
-}
-
-func (fl *c19Flow) node(states map[uint32]bool, n ast.Node) map[uint32]bool {
-	for _, ef := range fl.effectsOf(n) {
-		states = fl.applyEffect(states, ef)
-	}
-	if fl.ghost != nil || fl.feasibleX != nil {
-		out := map[uint32]bool{}
-		for st := range states {
-			var ns []uint32
-			if fl.ghost != nil {
-				ns = fl.ghost(n, st)
-			}
-			if ns == nil {
-				ns = []uint32{st}
-			}
-			for _, s := range ns {
-				if fl.consistent(s) {
-					out[s] = true
-				}
-			}
-		}
-		states = out
-	}
-	return states
-}
-
-func (fl *c19Flow) runBlock(b *cfg.Block, in map[uint32]bool, upTo int) map[uint32]bool {
-	cur := in
-	if b.Kind == cfg.KindRangeBody {
-		if rs, ok := b.Stmt.(*ast.RangeStmt); ok {
-			efs, ok := fl.rngEffs[b]
-			if !ok {
-				for _, kv := range []ast.Expr{rs.Key, rs.Value} {
-					if kv != nil {
-						ef := fl.assignEffect(kv, nil, token.ASSIGN)
-						efs = append(efs, &ef)
-					}
-				}
-				fl.rngEffs[b] = efs
-			}
-			for _, ef := range efs {
-				cur = fl.applyEffect(cur, ef)
-			}
-		}
-	}
-	for i := 0; i < upTo && i < len(b.Nodes); i++ {
-		cur = fl.node(cur, b.Nodes[i])
-	}
-	return cur
-}
-
-func (fl *c19Flow) termIDs(f *c19Form) map[string]bool {
-	ps := map[*c19Pred]bool{}
-	f.preds(ps)
-	out := map[string]bool{}
-	for p := range ps {
-		for _, t := range p.terms {
-			out[t.id] = true
-		}
-	}
-	return out
-}
-
-// solve chooses the predicates relevant to the goals and runs the fixpoint.
-func (fl *c19Flow) solve() {
-	fl.solved = true
-	g := fl.g
-	for _, b := range g.Blocks {
-		if c := g.BranchCond(b); c != nil && b.Succs[0] != b.Succs[1] {
-			if c.Tag != nil {
-				fl.cond[b] = fl.cmp(c.Tag, token.EQL, c.Expr)
-			} else {
-				fl.cond[b] = fl.form(c.Expr)
-			}
-		}
-		for _, n := range b.Nodes {
-			fl.effectsOf(n)
-		}
-	}
-	if fl.err != "" {
-		return
-	}
-	for _, p := range fl.all {
-		for _, t := range p.terms {
-			for _, rp := range t.paths {
-				if fl.seedRoot[rp.root] {
-					fl.seeds[t.id] = true
-				}
-			}
-		}
-	}
-	const maxBits, softBits = 14, 10
-	for depth := 2; depth >= 0; depth-- {
-		rel := map[string]bool{}
-		for id := range fl.seeds {
-			rel[id] = true
-		}
-		for d := 0; d < depth; d++ {
-			add := map[string]bool{}
-			for _, f := range fl.cond {
-				ids := fl.termIDs(f)
-				hit := false
-				for id := range ids {
-					if rel[id] {
-						hit = true
-					}
-				}
-				if hit {
-					for id := range ids {
-						add[id] = true
-					}
-				}
-			}
-			for _, efs := range fl.effs {
-				for _, ef := range efs {
-					if ef.kind == 'a' && ef.rhs != nil && rel[ef.lhsID] {
-						for _, id := range ef.rhs.ids() {
-							add[id] = true
-						}
-					}
-				}
-			}
-			for id := range add {
-				rel[id] = true
-			}
-		}
-		var keys []string
-		for k, p := range fl.all {
-			in := true
-			for _, t := range p.terms {
-				if !rel[t.id] {
-					in = false
-				}
-			}
-			if in {
-				keys = append(keys, k)
-			}
-		}
-		if len(keys) > softBits && depth > 0 {
-			continue // too many predicates: follow fewer links from the goals
-		}
-		if len(keys) > maxBits {
-			fl.err = fmt.Sprintf("%d predicates relevant in %s (limit %d)", len(keys), g.Name, maxBits)
-			return
-		}
-		sort.Slice(keys, func(i, j int) bool {
-			si, sj := fl.all[keys[i]].String(), fl.all[keys[j]].String()
-			if si != sj {
-				return si < sj
-			}
-			return keys[i] < keys[j]
-		})
-		for i, k := range keys {
-			p := fl.all[k]
-			p.bit = i
-			fl.tracked = append(fl.tracked, p)
-			if p.kind != "bool" {
-				p.bkey = c19BaseKey(p.base)
-				fl.groups[p.bkey] = append(fl.groups[p.bkey], p)
-				p.q1 = fl.query(p.base, p.k)
-				if p.kind == "eq" {
-					p.q2 = fl.query(p.base, p.k-1)
-				}
-			}
-		}
-		break
-	}
-	entry := map[uint32]bool{}
-	fl.expand(entry, fl.ghostInit<<c19GhostShift, func() []int {
-		var bits []int
-		for _, p := range fl.tracked {
-			bits = append(bits, p.bit)
-		}
-		return bits
-	}())
-	fl.in[g.Blocks[0]] = entry
-	work := []*cfg.Block{g.Blocks[0]}
-	for len(work) > 0 {
-		b := work[len(work)-1]
-		work = work[:len(work)-1]
-		out := fl.runBlock(b, fl.in[b], len(b.Nodes))
-		for i, s := range b.Succs {
-			f := fl.cond[b]
-			changed := false
-			for st := range out {
-				if f != nil && len(b.Succs) == 2 {
-					v := fl.eval3(f, st)
-					if (i == 0 && v == 0) || (i == 1 && v == 1) {
-						continue
-					}
-				}
-				if fl.in[s] == nil {
-					fl.in[s] = map[uint32]bool{}
-				}
-				if !fl.in[s][st] {
-					fl.in[s][st] = true
-					changed = true
-				}
-			}
-			if changed {
-				work = append(work, s)
-			}
-		}
-	}
-}
-
-func (fl *c19Flow) statesAt(l Loc) map[uint32]bool {
-	return fl.runBlock(l.B, fl.in[l.B], l.Idx)
-}
-
-func (fl *c19Flow) exitStates() map[uint32]bool {
-	out := map[uint32]bool{}
-	for _, b := range fl.g.Blocks {
-		if len(b.Succs) == 0 && fl.g.isNormalExit(b) {
-			for st := range fl.runBlock(b, fl.in[b], len(b.Nodes)) {
-				out[st] = true
-			}
-		}
-	}
-	return out
-}
-
-func (fl *c19Flow) describe(st uint32) string {
-	var s []string
-	for _, p := range fl.tracked {
-		v := "false"
-		if st>>uint(p.bit)&1 == 1 {
-			v = "true"
-		}
-		s = append(s, fmt.Sprintf("[%s]=%s", p, v))
-	}
-	if len(s) == 0 {
-		return "no guard of the function constrains it"
-	}
-	return strings.Join(s, " ")
-}
-
-// holds: is f true in every state of the set? Returns a witness state description otherwise.
-func (fl *c19Flow) holds(states map[uint32]bool, f *c19Form) (bool, string) {
-	var sts []uint32
-	for st := range states {
-		sts = append(sts, st)
-	}
-	sort.Slice(sts, func(i, j int) bool { return sts[i] < sts[j] })
-	for _, st := range sts {
-		if fl.eval3(f, st) != 1 {
-			return false, fl.describe(st)
-		}
-	}
-	return true, ""
-}
-
-// prove checks goal f at location l and records the obligation.
-func (fl *c19Flow) prove(rule, key string, pos token.Pos, l Loc, f *c19Form, what, consequence string) bool {
-	c := fl.c
-	if fl.err != "" {
-		c.undecided(rule, key, pos, "the flow analysis does not understand %s: %s", fl.g.Name, fl.err)
-		return false
-	}
-	sts := fl.statesAt(l)
-	if len(sts) == 0 {
-		c.undecided(rule, key, pos, "no abstract state reaches the site in %s: the guards on the way contradict each other (or the rule's model of them does)", fl.g.Name)
-		return false
-	}
-	ok, wit := fl.holds(sts, f)
-	if ok {
-		c.ok(rule, key, pos, "%s holds in all %d abstract states reaching the site (predicates tracked: %d)", what, len(sts), len(fl.tracked))
-		return true
-	}
-	c.bad(rule, key, pos, "%s is not established on every path to the site (%s reachable with %s): %s", what, f, wit, consequence)
-	return false
 }
 
 // ---------------------------------------------------------------------------------------------
@@ -1960,6 +179,9 @@ func c19FieldNamed(st *types.Struct, name string) *types.Var {
 
 // c19SelField: the field variable selected by e (x.f), or nil.
 func c19SelField(info *types.Info, e ast.Expr) *types.Var {
+	if e == nil {
+		return nil
+	}
 	sel, ok := unparen(e).(*ast.SelectorExpr)
 	if !ok {
 		return nil
@@ -1972,7 +194,8 @@ func c19SelField(info *types.Info, e ast.Expr) *types.Var {
 }
 
 type c19Store struct {
-	Loc
+	c19Pos
+	sn   *c19SNode
 	stmt ast.Stmt
 	lhs  ast.Expr
 	rhs  ast.Expr // nil when unknown (multi-value assignment)
@@ -1980,10 +203,11 @@ type c19Store struct {
 	fv   *types.Var
 }
 
-// c19Stores finds the assignments whose target is one of the given fields.
-func c19Stores(g *FG, fields ...*types.Var) []c19Store {
+// stores finds the assignments (in every frame) whose target is one of the given fields.
+func (fl *c19Flow) stores(fields ...*types.Var) []c19Store {
+	info := fl.info
 	want := func(e ast.Expr) *types.Var {
-		fv := c19SelField(g.Info, e)
+		fv := c19SelField(info, e)
 		for _, f := range fields {
 			if f != nil && fv == f {
 				return fv
@@ -1992,62 +216,67 @@ func c19Stores(g *FG, fields ...*types.Var) []c19Store {
 		return nil
 	}
 	var out []c19Store
-	for _, b := range g.Blocks {
-		for i, top := range b.Nodes {
-			inspectNoLit(top, func(n ast.Node) bool {
-				switch s := n.(type) {
-				case *ast.AssignStmt:
-					for j, l := range s.Lhs {
-						if fv := want(l); fv != nil {
-							st := c19Store{Loc: Loc{b, i}, stmt: s, lhs: l, tok: s.Tok, fv: fv}
-							if len(s.Lhs) == len(s.Rhs) {
-								st.rhs = s.Rhs[j]
-							}
-							out = append(out, st)
-						}
+	for _, h := range fl.find(func(n ast.Node) bool {
+		switch n.(type) {
+		case *ast.AssignStmt, *ast.IncDecStmt:
+			return true
+		}
+		return false
+	}) {
+		switch s := h.node.(type) {
+		case *ast.AssignStmt:
+			for j, l := range s.Lhs {
+				if fv := want(l); fv != nil {
+					st := c19Store{c19Pos: h.c19Pos, sn: h.sn, stmt: s, lhs: l, tok: s.Tok, fv: fv}
+					if len(s.Lhs) == len(s.Rhs) {
+						st.rhs = s.Rhs[j]
 					}
-				case *ast.IncDecStmt:
-					if fv := want(s.X); fv != nil {
-						out = append(out, c19Store{Loc: Loc{b, i}, stmt: s, lhs: s.X, tok: s.Tok, fv: fv})
-					}
+					out = append(out, st)
 				}
-				return true
-			})
+			}
+		case *ast.IncDecStmt:
+			if fv := want(s.X); fv != nil {
+				out = append(out, c19Store{c19Pos: h.c19Pos, sn: h.sn, stmt: s, lhs: s.X, tok: s.Tok, fv: fv})
+			}
 		}
 	}
 	return out
 }
 
-// value of a store as a linear form (nil when not linear).
+// value of a store as a linear form in its frame (nil when not linear).
 func (s c19Store) lin(info *types.Info) *c19Lin {
-	switch s.tok {
-	case token.INC:
-		return c19LinOf(info, s.lhs).addK(1)
-	case token.DEC:
-		return c19LinOf(info, s.lhs).addK(-1)
-	}
-	if s.rhs == nil || !c19IsIntType(info.TypeOf(s.rhs)) {
-		return nil
-	}
-	switch s.tok {
-	case token.ASSIGN, token.DEFINE:
-		return c19LinOf(info, s.rhs)
-	case token.ADD_ASSIGN:
-		return c19LinOf(info, s.lhs).plus(c19LinOf(info, s.rhs), 1)
-	case token.SUB_ASSIGN:
-		return c19LinOf(info, s.lhs).plus(c19LinOf(info, s.rhs), -1)
-	}
-	return nil
+	var l *c19Lin
+	c19With(s.sn.fr, func() {
+		switch s.tok {
+		case token.INC:
+			l = c19LinOf(info, s.lhs).addK(1)
+			return
+		case token.DEC:
+			l = c19LinOf(info, s.lhs).addK(-1)
+			return
+		}
+		if s.rhs == nil || !c19IsIntType(info.TypeOf(s.rhs)) {
+			return
+		}
+		switch s.tok {
+		case token.ASSIGN, token.DEFINE:
+			l = c19LinOf(info, s.rhs)
+		case token.ADD_ASSIGN:
+			l = c19LinOf(info, s.lhs).plus(c19LinOf(info, s.rhs), 1)
+		case token.SUB_ASSIGN:
+			l = c19LinOf(info, s.lhs).plus(c19LinOf(info, s.rhs), -1)
+		}
+	})
+	return l
 }
 
 func (s c19Store) av(ev *c19Eval) c19AV {
-	one := c19AV{1, 1, 1}
 	a := ev.eval(s.lhs)
 	switch s.tok {
 	case token.INC:
 		return c19AV{a.lo + 1, a.hi + 1, a.rel + 1}
 	case token.DEC:
-		return c19AV{a.lo - one.hi, a.hi - 1, a.rel - 1}
+		return c19AV{a.lo - 1, a.hi - 1, a.rel - 1}
 	}
 	if s.rhs == nil {
 		return c19Top()
@@ -2064,10 +293,27 @@ func (s c19Store) av(ev *c19Eval) c19AV {
 	return c19Top()
 }
 
-// c19SizeVars: the variables bound to the results of a call of vaxis.Window.Size in g.
-func c19SizeVars(g *FG) (w, h *ast.Ident) {
-	for _, hit := range g.Find(func(n ast.Node) bool { _, ok := n.(*ast.AssignStmt); return ok }) {
-		as := hit.Node.(*ast.AssignStmt)
+// isZeroStore: the node is `<field> = 0`.
+func c19IsZeroStore(info *types.Info, fv *types.Var) func(ast.Node) bool {
+	return func(n ast.Node) bool {
+		as, ok := n.(*ast.AssignStmt)
+		if !ok || len(as.Lhs) != 1 || len(as.Rhs) != 1 || as.Tok != token.ASSIGN || c19SelField(info, as.Lhs[0]) != fv {
+			return false
+		}
+		v, ok := constInt(info, as.Rhs[0])
+		return ok && v == 0
+	}
+}
+
+type c19SizeVar struct {
+	id *ast.Ident
+	fr *c19Frame
+}
+
+// sizeVars: the variables bound to the results of a call of vaxis.Window.Size anywhere in the supergraph.
+func (fl *c19Flow) sizeVars() (w, h *c19SizeVar) {
+	for _, hit := range fl.find(func(n ast.Node) bool { _, ok := n.(*ast.AssignStmt); return ok }) {
+		as := hit.node.(*ast.AssignStmt)
 		if len(as.Rhs) != 1 || len(as.Lhs) != 2 {
 			continue
 		}
@@ -2075,17 +321,23 @@ func c19SizeVars(g *FG) (w, h *ast.Ident) {
 		if !ok {
 			continue
 		}
-		if fn := calleeOf(g.Info, call); fn == nil || repoName(fn) != "vaxis.Window.Size" {
+		if fn := calleeOf(fl.info, call); fn == nil || repoName(fn) != "vaxis.Window.Size" {
 			continue
 		}
 		if id, ok := as.Lhs[0].(*ast.Ident); ok && id.Name != "_" {
-			w = id
+			w = &c19SizeVar{id, hit.sn.fr}
 		}
 		if id, ok := as.Lhs[1].(*ast.Ident); ok && id.Name != "_" {
-			h = id
+			h = &c19SizeVar{id, hit.sn.fr}
 		}
 	}
 	return
+}
+
+func (v *c19SizeVar) lin(info *types.Info) *c19Lin {
+	var l *c19Lin
+	c19With(v.fr, func() { l = c19LinOf(info, v.id) })
+	return l
 }
 
 func c19RecvObj(fi *FuncInfo) types.Object {
@@ -2095,37 +347,10 @@ func c19RecvObj(fi *FuncInfo) types.Object {
 	return fi.Pkg.TypesInfo.Defs[fi.Decl.Recv.List[0].Names[0]]
 }
 
-// c19FindSel: some expression in the function that selects field fv.
-func c19FindSel(fi *FuncInfo, fv *types.Var) ast.Expr {
-	var out ast.Expr
-	ast.Inspect(fi.Decl.Body, func(n ast.Node) bool {
-		if out != nil {
-			return false
-		}
-		if e, ok := n.(ast.Expr); ok && c19SelField(fi.Pkg.TypesInfo, e) == fv {
-			if _, ok := c19Chain(fi.Pkg.TypesInfo, e); ok {
-				out = e
-			}
-		}
-		return true
-	})
-	return out
-}
-
-// c19LenLin: the linear form len(e) for an access path expression e (built without needing a len call in the source).
-func c19LenLin(info *types.Info, e ast.Expr) *c19Lin {
-	call := &ast.CallExpr{Fun: ast.NewIdent("len"), Args: []ast.Expr{e}}
-	t := &c19Term{id: "len(" + termOf(info, e).ID + ")", ex: call, paths: c19ReadPaths(info, e), isLen: true}
-	l := c19NewLin()
-	l.coef[t.id] = 1
-	l.tm[t.id] = t
-	return l
-}
-
-// c19WithLen wraps bounds so that len terms are >= 0 even when fabricated.
+// c19WithLen wraps bounds so that len terms and fabricated non-negative terms are >= 0.
 func c19WithLen(b c19Bounds) c19Bounds {
 	return func(t *c19Term) (float64, float64) {
-		if t != nil && t.isLen {
+		if t != nil && (t.isLen || t.nonneg) {
 			return 0, math.Inf(1)
 		}
 		return b(t)
@@ -2147,373 +372,10 @@ func c19Short(e ast.Node) string {
 		return strings.Join(l, ", ") + " " + t.Tok.String() + " " + strings.Join(r, ", ")
 	case *ast.IncDecStmt:
 		return types.ExprString(t.X) + t.Tok.String()
+	case *ast.ExprStmt:
+		return types.ExprString(t.X)
 	}
 	return fmt.Sprintf("%T", e)
-}
-
-// ---------------------------------------------------------------------------------------------
-// the check
-// ---------------------------------------------------------------------------------------------
-
-var c19Graphs = map[*FuncInfo]*FG{}
-
-// c19Graph: one CFG per function for the whole check (locations of different rules must be comparable).
-func c19Graph(c *Ctx, fi *FuncInfo) *FG {
-	if g, ok := c19Graphs[fi]; ok {
-		return g
-	}
-	g := c.P.Graph(fi)
-	c19Graphs[fi] = g
-	return g
-}
-
-func runC19(c *Ctx) {
-	c19ModMemo = map[*types.Func][][]string{}
-	c19ModAll = map[*types.Func]bool{}
-	c19Graphs = map[*FuncInfo]*FG{}
-	c.Clauses = []string{
-		"C19.a widgets/list: every store to List.index/offset keeps it >= 0 and every store to index keeps it <= max(0,len(items)-1) (intervals, helper summaries, one guard used once); a store to items is paired with a clamping store to index; items[offset:] is reached only with offset <= len(items) (directly or through offset <= index)",
-		"C19.e widgets/list: at the draw loop offset <= index < offset+height; item i of the visible items is drawn on row i; the highlighted row is index-offset",
-		"C19.b widgets/pager: Layout's pending line is flushed on every path to return, never overwritten, stored twice or appended to after being stored; lines are reset once before the first flush; the column counter advances with every cell and restarts after each flush; a line is closed when col >= width; Draw reaches its loop with 0 <= Offset, Offset clamped to the content and the lines laid out for the recorded window width; each line is drawn at row-Offset",
-		"C19.c vxfw/list: unsigned subtractions reaching an index or the scroll state are ordered by the guards in force (entry decrements lifted to the call sites; the wantsCursor site is an exception whose side conditions are checked); index expressions stay within [0,len); cursor stores are followed by ensureScroll; ensureScroll raises wantsCursor only under cursor >= top, else re-anchors top = cursor, offset = 0; pending is reset after it is read",
-		"C19.d every integer division of the anchored files has a divisor that the guards in force make non-zero",
-	}
-	c.NotDec = []string{
-		"visibility of the selected item after a draw of the dynamic list (depends on measured item heights)",
-		"contiguity and non-overlap of the laid-out items of the dynamic list",
-		"loss-free wrapping of wide characters at the window edge in the pager",
-	}
-	c.Assume = append(c.Assume,
-		"Builder callbacks and child Draw methods do not mutate the list that calls them",
-		"integer values stay below 2^63 (integer conversions are order preserving); the only wrap-around considered is the unsigned subtraction that rule C19.c excludes")
-	c.expect("C19.a", 20)
-	c.expect("C19.e", 3)
-	c.expect("C19.b", 20)
-	c.expect("C19.c", 25)
-	c.expect("C19.d", 2)
-
-	c19WidgetsList(c)
-	c19Pager(c)
-	c19VxfwList(c)
-	c19Divisors(c)
-	if os.Getenv("C19_DEBUG") != "" {
-		for _, o := range c.Obs {
-			fmt.Printf("DEBUG %-10s %s [%s] %s\n", o.Status, o.Key, o.Pos, o.Reason)
-		}
-	}
-}
-
-// ---------------------------------------------------------------------------------------------
-// C19.a / C19.e — widgets/list
-// ---------------------------------------------------------------------------------------------
-
-func c19WidgetsList(c *Ctx) {
-	const pkgName = "widgets/list"
-	pk := c.P.Pkg(pkgName)
-	if pk == nil {
-		c.undecided("C19.a", pkgName, 0, "package not found")
-		return
-	}
-	info := pk.TypesInfo
-	tn, st := c19StructOf(pk, "List")
-	fIndex, fOffset, fItems := c19FieldNamed(st, "index"), c19FieldNamed(st, "offset"), c19FieldNamed(st, "items")
-	if tn == nil || fIndex == nil || fOffset == nil || fItems == nil {
-		c.undecided("C19.a", pkgName+".List", 0, "type List with fields index, offset, items not found")
-		return
-	}
-	// the invariant is only an invariant if nobody can write the fields behind the rule's back
-	for _, file := range pk.Syntax {
-		ast.Inspect(file, func(n ast.Node) bool {
-			if u, ok := n.(*ast.UnaryExpr); ok && u.Op == token.AND {
-				if fv := c19SelField(info, u.X); fv == fIndex || fv == fOffset {
-					c.undecided("C19.a", pkgName+"/address of "+fv.Name(), u.Pos(), "the address of List.%s is taken; its stores can no longer be enumerated", fv.Name())
-				}
-			}
-			if cl, ok := n.(*ast.CompositeLit); ok {
-				if t := info.TypeOf(cl); t != nil && types.Identical(t, tn.Type()) {
-					c19ListLiteral(c, info, cl, st, pkgName)
-				}
-			}
-			return true
-		})
-	}
-	for _, fi := range c.P.FuncsIn(pkgName) {
-		g := c19Graph(c, fi)
-		if g == nil {
-			continue
-		}
-		stores := c19Stores(g, fIndex, fOffset, fItems)
-		sinks := g.Find(func(n ast.Node) bool {
-			switch t := n.(type) {
-			case *ast.SliceExpr:
-				return c19SelField(info, t.X) == fItems
-			case *ast.IndexExpr:
-				return c19SelField(info, t.X) == fItems
-			}
-			return false
-		})
-		if len(stores) == 0 && len(sinks) == 0 {
-			continue
-		}
-		storesItems := false
-		aliases := map[types.Object]bool{}
-		params := map[types.Object]bool{}
-		for _, f := range fi.Decl.Type.Params.List {
-			for _, n := range f.Names {
-				params[info.Defs[n]] = true
-			}
-		}
-		for _, s := range stores {
-			if s.fv == fItems {
-				storesItems = true
-				if id, ok := unparen(s.rhs).(*ast.Ident); ok && s.rhs != nil && s.tok == token.ASSIGN {
-					if o := info.ObjectOf(id); o != nil && params[o] {
-						reassigned := false
-						ast.Inspect(fi.Decl.Body, func(n ast.Node) bool {
-							if n != nil && assignsAny(info, n, map[types.Object]bool{o: true}) {
-								if _, isBlock := n.(*ast.BlockStmt); !isBlock {
-									reassigned = true
-								}
-							}
-							return !reassigned
-						})
-						if !reassigned {
-							aliases[o] = true
-						}
-					}
-				}
-			}
-		}
-		ev := &c19Eval{c: c, pk: pk, info: info}
-		ev.field = func(_ *c19Eval, sel *ast.SelectorExpr, fv *types.Var) (c19AV, bool) {
-			if _, ok := unparen(sel.X).(*ast.Ident); !ok {
-				return c19AV{}, false
-			}
-			switch fv {
-			case fIndex:
-				a := c19AV{0, math.Inf(1), 0}
-				if storesItems {
-					a.rel = math.Inf(1) // the bound refers to the items being replaced
-				}
-				return a, true
-			case fOffset:
-				return c19AV{0, math.Inf(1), math.Inf(1)}, true
-			}
-			return c19AV{}, false
-		}
-		// len(m.items) is the length of the list the index has to fit only once items has its new value
-		var curLoc *Loc
-		itemsStoredBefore := func(l Loc) bool {
-			for _, s := range stores {
-				if s.fv == fItems {
-					stmt := s.stmt
-					if !g.MustPrecede(func(n ast.Node) bool { return n == ast.Node(stmt) }, l) {
-						return false
-					}
-				}
-			}
-			return true
-		}
-		ev.lenL = func(arg ast.Expr) bool {
-			if c19SelField(ev.info, arg) == fItems {
-				return !storesItems || (curLoc != nil && itemsStoredBefore(*curLoc))
-			}
-			if id, ok := unparen(arg).(*ast.Ident); ok {
-				return aliases[ev.info.ObjectOf(id)]
-			}
-			return false
-		}
-		evStore := &c19Eval{c: c, pk: pk, info: info, field: ev.field, lenL: ev.lenL}
-		fl := c19NewFlow(c, g, c19WithLen(ev.bounds()))
-		type pending struct {
-			s    c19Store
-			goal *c19Form
-		}
-		var pend []pending
-		for _, s := range stores {
-			if s.fv == fItems {
-				continue
-			}
-			var goal *c19Form
-			if l := s.lin(info); l != nil {
-				goal = fl.goalAt(fl.ge0(l), s.Loc)
-			}
-			pend = append(pend, pending{s, goal})
-		}
-		// sinks
-		_, hVar := c19SizeVars(g)
-		type sinkGoal struct {
-			h                  Hit
-			low                ast.Expr
-			inRange, follows   *c19Form
-			isSlice, lowIsOffs bool
-		}
-		var sgs []sinkGoal
-		for _, h := range sinks {
-			sg := sinkGoal{h: h}
-			var itemsExpr ast.Expr
-			switch t := h.Node.(type) {
-			case *ast.SliceExpr:
-				sg.isSlice, sg.low, itemsExpr = true, t.Low, t.X
-				if t.High != nil || t.Max != nil {
-					c.undecided("C19.a", fi.Name+"/"+types.ExprString(t), t.Pos(), "a slice of items with an upper bound is not a shape this rule understands")
-					continue
-				}
-			case *ast.IndexExpr:
-				sg.low, itemsExpr = t.Index, t.X
-			}
-			if sg.low == nil {
-				c.okTrivial("C19.a", fi.Name+"/"+c19Short(h.Node)+" within items", h.Node.Pos(), "no lower bound expression")
-				continue
-			}
-			low := c19LinOf(info, sg.low)
-			lenItems := c19LenLin(info, itemsExpr)
-			sg.lowIsOffs = c19SelField(info, sg.low) == fOffset
-			idxSel := c19FindSel(fi, fIndex)
-			if sg.isSlice {
-				alts := []*c19Form{fl.le(low.plus(lenItems, -1))} // low <= len(items)
-				if idxSel != nil && !storesItems {
-					alts = append(alts, fl.le(low.plus(c19LinOf(info, idxSel), -1))) // low <= index <= max(0,len-1) <= len
-				}
-				sg.inRange = fl.goal(c19Or(alts...))
-			} else {
-				sg.inRange = fl.goal(fl.le(low.plus(lenItems, -1).addK(1))) // low <= len-1
-			}
-			if sg.lowIsOffs && idxSel != nil && sg.isSlice {
-				idx := c19LinOf(info, idxSel)
-				f1 := fl.le(low.plus(idx, -1)) // offset <= index
-				if hVar != nil {
-					f2 := fl.le(idx.plus(low, -1).plus(c19LinOf(info, hVar), -1).addK(1)) // index - offset - height <= -1
-					sg.follows = fl.goal(c19And(f1, f2))
-				} else {
-					sg.follows = c19U
-				}
-			}
-			sgs = append(sgs, sg)
-		}
-		fl.solve()
-
-		isIndexStoreOK := map[ast.Stmt]bool{}
-		for _, p := range pend {
-			s := p.s
-			loc := s.Loc
-			curLoc = &loc
-			evStore.memo = nil
-			av := s.av(evStore).norm()
-			curLoc = nil
-			key := fmt.Sprintf("%s/store %s >= 0", fi.Name, s.fv.Name())
-			switch {
-			case av.lo >= 0:
-				c.ok("C19.a", key, s.stmt.Pos(), "%s: the stored value lies in [%v, %v] (fields index/offset >= 0 and len >= 0 assumed inductively)", c19Short(s.stmt), av.lo, av.hi)
-			case p.goal != nil:
-				fl.prove("C19.a", key, s.stmt.Pos(), s.Loc, p.goal, "stored value >= 0",
-					fmt.Sprintf("List.%s can become negative (interval lower bound %v); Draw then slices items[offset:] with a negative offset and panics", s.fv.Name(), av.lo))
-			default:
-				c.bad("C19.a", key, s.stmt.Pos(), "the stored value has lower bound %v: List.%s can become negative", av.lo, s.fv.Name())
-			}
-			if s.fv == fIndex {
-				key := fmt.Sprintf("%s/store index <= last item", fi.Name)
-				if av.rel <= 0 {
-					isIndexStoreOK[s.stmt] = true
-					c.ok("C19.a", key, s.stmt.Pos(), "the stored value is bounded by max(0, len(items)-1) (slack %v)", -av.rel)
-				} else {
-					c.bad("C19.a", key, s.stmt.Pos(), "the stored value is not bounded by max(0, len(items)-1) (excess: %v): the selected index can leave the list, and Draw can slice beyond len(items)", av.rel)
-				}
-			}
-		}
-		for _, s := range stores {
-			if s.fv != fItems {
-				continue
-			}
-			key := fmt.Sprintf("%s/store items paired with a clamp of index", fi.Name)
-			isClamp := func(n ast.Node) bool { st, ok := n.(ast.Stmt); return ok && isIndexStoreOK[st] }
-			after, _ := g.MustFollow(s.Loc, isClamp)
-			before := g.MustPrecede(isClamp, s.Loc)
-			c.check(after || before, "C19.a", key, s.stmt.Pos(),
-				"every path through the replacement of items also stores an index bounded by the new length",
-				"items is replaced without re-clamping index on every path: after shrinking the list the selected index is out of range")
-		}
-		for _, sg := range sgs {
-			h := sg.h
-			name := "items[" + types.ExprString(stripRecv(sg.low)) + ":]"
-			if !sg.isSlice {
-				name = "items[" + types.ExprString(stripRecv(sg.low)) + "]"
-			}
-			av := ev.eval(sg.low)
-			key := fmt.Sprintf("%s/%s lower bound >= 0", fi.Name, name)
-			if av.lo >= 0 {
-				c.ok("C19.a", key, h.Node.Pos(), "the bound lies in [%v, %v] by the store invariant", av.lo, av.hi)
-			} else {
-				fl.prove("C19.a", key, h.Node.Pos(), h.Loc, fl.ge0(c19LinOf(info, sg.low)), "bound >= 0", "a negative slice bound panics")
-			}
-			fl.prove("C19.a", fmt.Sprintf("%s/%s within len(items)", fi.Name, name), h.Node.Pos(), h.Loc, sg.inRange,
-				"bound <= len(items) (directly, or bound <= index which never exceeds the last item)",
-				"the slice bound can exceed len(items) and Draw panics (e.g. a window of height 0 or less: Window.New yields negative sizes)")
-			if sg.follows == c19U {
-				c.undecided("C19.e", fmt.Sprintf("%s/%s viewport follows selection", fi.Name, name), h.Node.Pos(), "no height obtained from Window.Size in this function")
-			} else if sg.follows != nil {
-				fl.prove("C19.e", fmt.Sprintf("%s/%s viewport follows selection", fi.Name, name), h.Node.Pos(), h.Loc, sg.follows,
-					"offset <= index < offset+height", "after a selection change the selected row can lie outside the drawn rows")
-			}
-			if sl, ok := h.Node.(*ast.SliceExpr); ok && sg.lowIsOffs {
-				if rs, ok := c.P.Parents(pk)[sl].(*ast.RangeStmt); ok && rs.X == ast.Expr(sl) {
-					c19ListRows(c, fi, rs, sg.low, c19FindSel(fi, fIndex), name)
-				}
-			}
-		}
-	}
-}
-
-// c19ListRows: inside `for i := range items[offset:]` the item is drawn on row i and the highlighted row is index-offset.
-func c19ListRows(c *Ctx, fi *FuncInfo, rs *ast.RangeStmt, low, idxSel ast.Expr, name string) {
-	info := fi.Pkg.TypesInfo
-	kid, ok := rs.Key.(*ast.Ident)
-	if !ok || kid.Name == "_" || idxSel == nil {
-		c.undecided("C19.e", fi.Name+"/"+name+" rows", rs.Pos(), "the range over the visible items binds no row index")
-		return
-	}
-	key := c19LinOf(info, kid)
-	want := key.plus(c19LinOf(info, idxSel), -1).plus(c19LinOf(info, low), 1) // i - index + offset
-	isZero := func(l *c19Lin) bool { return len(l.ids()) == 0 && l.k == 0 }
-	nCmp, nDraw := 0, 0
-	ast.Inspect(rs.Body, func(n ast.Node) bool {
-		switch t := n.(type) {
-		case *ast.BinaryExpr:
-			if (t.Op == token.EQL || t.Op == token.NEQ) && isIntegerExpr(info, t.X) && isIntegerExpr(info, t.Y) {
-				l := c19Resolve(fi, c19LinOf(info, t.X).plus(c19LinOf(info, t.Y), -1))
-				if kc := l.coef[termOf(info, kid).ID]; kc == 1 || kc == -1 {
-					nCmp++
-					okCmp := isZero(l.plus(want, -kc))
-					cmsg := "the row compared with the range index is " + types.ExprString(t) + ", not index - offset: the highlighted row is not the selected item"
-					if okCmp {
-						cmsg = ""
-					}
-					cKey := fi.Name + "/" + name + " highlighted row is index - offset"
-					if okCmp {
-						c.ok("C19.e", cKey, t.Pos(), "the row index is compared with index - offset")
-					} else {
-						c.bad("C19.e", cKey, t.Pos(), "%s", cmsg)
-					}
-				}
-			}
-		case *ast.CallExpr:
-			if fn := calleeOf(info, t); fn != nil && strings.HasPrefix(repoName(fn), "vaxis.Window.") {
-				if arg := c19ParamArg(fn, t, "row"); arg != nil {
-					nDraw++
-					l := c19Resolve(fi, c19LinOf(info, arg)).plus(key, -1)
-					c.check(isZero(l), "C19.e", fi.Name+"/"+name+" item i drawn on row i", t.Pos(),
-						"the visible items are drawn on consecutive rows in order", "the row passed to "+fn.Name()+" is "+types.ExprString(arg)+", not the position of the item among the visible ones: items are not laid out in order and contiguously")
-				}
-			}
-		}
-		return true
-	})
-	if nCmp == 0 {
-		c.undecided("C19.e", fi.Name+"/"+name+" highlighted row is index - offset", rs.Pos(), "no comparison of the row index with the selection found in the loop")
-	}
-	if nDraw == 0 {
-		c.undecided("C19.e", fi.Name+"/"+name+" item i drawn on row i", rs.Pos(), "no Window drawing call with a row parameter found in the loop")
-	}
 }
 
 // c19ParamArg: the argument bound to the callee parameter called name.
@@ -2530,1512 +392,258 @@ func c19ParamArg(fn *types.Func, call *ast.CallExpr, name string) ast.Expr {
 	return nil
 }
 
-// c19Resolve substitutes locals that are assigned exactly once by their defining expression.
-func c19Resolve(fi *FuncInfo, l *c19Lin) *c19Lin {
-	info := fi.Pkg.TypesInfo
-	for round := 0; round < 3; round++ {
-		changed := false
-		for _, id := range l.ids() {
-			t := l.tm[id]
-			idn, ok := t.ex.(*ast.Ident)
+// frames lists the frames of the supergraph.
+func (fl *c19Flow) frames() []*c19Frame {
+	seen := map[*c19Frame]bool{}
+	var out []*c19Frame
+	for _, b := range fl.blks {
+		if !seen[b.fr] {
+			seen[b.fr] = true
+			out = append(out, b.fr)
+		}
+	}
+	return out
+}
+
+// c19Origin: e is (part of) element J of the slice field fv; returns J as a linear form in the frame's
+// vocabulary (range values, single-definition locals and parameters are followed).
+func c19Origin(c *Ctx, fr *c19Frame, e ast.Expr, fv *types.Var, depth int) *c19Lin {
+	if e == nil || depth > 6 {
+		return nil
+	}
+	info := fr.fi.Pkg.TypesInfo
+	var out *c19Lin
+	c19With(fr, func() {
+		switch t := unparen(e).(type) {
+		case *ast.IndexExpr:
+			if c19SelField(info, t.X) == fv {
+				out = c19LinOf(info, t.Index)
+			} else {
+				out = c19Origin(c, fr, t.X, fv, depth+1)
+			}
+		case *ast.SelectorExpr:
+			if _, ok := info.Selections[t]; ok {
+				out = c19Origin(c, fr, t.X, fv, depth+1)
+			}
+		case *ast.StarExpr:
+			out = c19Origin(c, fr, t.X, fv, depth+1)
+		case *ast.UnaryExpr:
+			if t.Op == token.AND {
+				out = c19Origin(c, fr, t.X, fv, depth+1)
+			}
+		case *ast.CompositeLit:
+			for _, el := range t.Elts {
+				if kv, ok := el.(*ast.KeyValueExpr); ok {
+					el = kv.Value
+				}
+				if o := c19Origin(c, fr, el, fv, depth+1); o != nil {
+					out = o
+					return
+				}
+			}
+		case *ast.CallExpr:
+			if _, ok := c19IsConversion(info, t); ok {
+				out = c19Origin(c, fr, t.Args[0], fv, depth+1)
+			}
+		case *ast.Ident:
+			o, ok := info.ObjectOf(t).(*types.Var)
 			if !ok {
+				return
+			}
+			out = c19OriginObj(c, fr, o, fv, depth+1)
+		}
+	})
+	return out
+}
+
+func c19OriginObj(c *Ctx, fr *c19Frame, o *types.Var, fv *types.Var, depth int) *c19Lin {
+	info := fr.fi.Pkg.TypesInfo
+	if depth > 6 {
+		return nil
+	}
+	// a parameter of an inlined helper: follow the argument in the caller
+	if fr.parent != nil {
+		if a, ok := fr.alias[o]; ok && len(a.path) == 0 {
+			if v, ok := a.root.(*types.Var); ok {
+				return c19OriginObj(c, fr.parent, v, fv, depth+1)
+			}
+		}
+		if arg, ok := fr.args[o]; ok {
+			return c19Origin(c, fr.parent, arg, fv, depth+1)
+		}
+	}
+	// the value variable of a range statement
+	var rs *ast.RangeStmt
+	ast.Inspect(fr.fi.Decl.Body, func(n ast.Node) bool {
+		if r, ok := n.(*ast.RangeStmt); ok && r.Value != nil {
+			if id, ok := r.Value.(*ast.Ident); ok && info.ObjectOf(id) == types.Object(o) {
+				rs = r
+			}
+		}
+		return rs == nil
+	})
+	if rs != nil {
+		var key *c19Lin
+		if kid, ok := rs.Key.(*ast.Ident); ok && kid.Name != "_" {
+			c19With(fr, func() { key = c19LinOf(info, kid) })
+		}
+		x := unparen(rs.X)
+		if c19SelField(info, x) == fv {
+			return key
+		}
+		if sl, ok := x.(*ast.SliceExpr); ok && c19SelField(info, sl.X) == fv {
+			if key == nil {
+				return nil
+			}
+			if sl.Low == nil {
+				return key
+			}
+			var low *c19Lin
+			c19With(fr, func() { low = c19LinOf(info, sl.Low) })
+			return key.plus(low, 1)
+		}
+		return c19Origin(c, fr, x, fv, depth+1)
+	}
+	if def, _ := c19LocalDef(fr.fi, o); def != nil {
+		return c19Origin(c, fr, def, fv, depth+1)
+	}
+	return nil
+}
+
+// c19RowCall: a call of a vaxis.Window drawing method with a parameter called row.
+type c19RowCall struct {
+	hit  c19Hit
+	call *ast.CallExpr
+	fn   *types.Func
+	row  *c19Lin // resolved in its frame
+	item *c19Lin // index of the element of the tracked slice that is drawn (nil: unknown)
+}
+
+func (fl *c19Flow) rowCalls(fv *types.Var) []c19RowCall {
+	var out []c19RowCall
+	for _, h := range fl.find(func(n ast.Node) bool { _, ok := n.(*ast.CallExpr); return ok }) {
+		call := h.node.(*ast.CallExpr)
+		fn := calleeOf(fl.info, call)
+		if fn == nil || !strings.HasPrefix(repoName(fn), "vaxis.Window.") {
+			continue
+		}
+		rowArg := c19ParamArg(fn, call, "row")
+		if rowArg == nil {
+			continue
+		}
+		rc := c19RowCall{hit: h, call: call, fn: fn}
+		use := h.sn.loc
+		c19With(h.sn.fr, func() { rc.row = c19Resolve(fl.c, h.sn.fr.fi, c19LinOf(fl.info, rowArg), &use) })
+		rc.row = c19LiftLin(fl.c, h.sn.fr, rc.row)
+		for _, a := range call.Args {
+			if a == rowArg || rc.item != nil {
 				continue
 			}
-			v, ok := info.ObjectOf(idn).(*types.Var)
-			if !ok || v.IsField() || v.Parent() == fi.Pkg.Types.Scope() {
-				continue
-			}
-			var def ast.Expr
-			n := 0
-			ast.Inspect(fi.Decl.Body, func(m ast.Node) bool {
-				switch st := m.(type) {
-				case *ast.AssignStmt:
-					for i, lh := range st.Lhs {
-						if li, ok := lh.(*ast.Ident); ok && info.ObjectOf(li) == v {
-							n++
-							if len(st.Lhs) == len(st.Rhs) && (st.Tok == token.DEFINE || st.Tok == token.ASSIGN) {
-								def = st.Rhs[i]
-							} else {
-								n++
-							}
-						}
-					}
-				case *ast.IncDecStmt:
-					if li, ok := st.X.(*ast.Ident); ok && info.ObjectOf(li) == v {
-						n += 2
-					}
-				case *ast.RangeStmt:
-					for _, kv := range []ast.Expr{st.Key, st.Value} {
-						if li, ok := kv.(*ast.Ident); ok && info.ObjectOf(li) == v {
-							n += 2
-						}
-					}
-				case *ast.UnaryExpr:
-					if li, ok := st.X.(*ast.Ident); ok && st.Op == token.AND && info.ObjectOf(li) == v {
-						n += 2
+			ast.Inspect(a, func(n ast.Node) bool {
+				if rc.item != nil {
+					return false
+				}
+				switch t := n.(type) {
+				case *ast.Ident, *ast.IndexExpr:
+					if o := c19Origin(fl.c, h.sn.fr, t.(ast.Expr), fv, 0); o != nil {
+						c19With(h.sn.fr, func() { rc.item = c19Resolve(fl.c, h.sn.fr.fi, o, &use) })
+						rc.item = c19LiftLin(fl.c, h.sn.fr, rc.item)
+						return false
 					}
 				}
 				return true
 			})
-			if n == 1 && def != nil && isIntegerExpr(info, def) {
-				c := l.coef[id]
-				nl := l.clone()
-				delete(nl.coef, id)
-				delete(nl.tm, id)
-				l = nl.plus(c19LinOf(info, def), c)
-				changed = true
-			}
 		}
-		if !changed {
-			break
+		out = append(out, rc)
+	}
+	return out
+}
+
+// c19LiftLin replaces the value parameters of inlined helpers by the arguments they were called with
+// (parameters are required not to be reassigned; the argument is read in the caller's vocabulary).
+func c19LiftLin(c *Ctx, fr *c19Frame, l *c19Lin) *c19Lin {
+	for ; fr != nil && fr.parent != nil; fr = fr.parent {
+		info := fr.fi.Pkg.TypesInfo
+		for _, id := range l.ids() {
+			t := l.tm[id]
+			if len(t.paths) != 1 || len(t.paths[0].path) != 0 {
+				continue
+			}
+			arg, ok := fr.args[t.paths[0].root]
+			if !ok || !isIntegerExpr(info, arg) {
+				continue
+			}
+			if v, isVar := t.paths[0].root.(*types.Var); isVar {
+				if def, _ := c19LocalDef(fr.fi, v); def != nil {
+					continue
+				}
+				assigned := false
+				ast.Inspect(fr.fi.Decl.Body, func(n ast.Node) bool {
+					if n != nil && assignsAny(info, n, map[types.Object]bool{v: true}) {
+						if _, blk := n.(*ast.BlockStmt); !blk {
+							assigned = true
+						}
+					}
+					return !assigned
+				})
+				if assigned {
+					continue
+				}
+			}
+			var al *c19Lin
+			c19With(fr.parent, func() { al = c19Resolve(c, fr.parent.fi, c19LinOf(info, arg), nil) })
+			k := l.coef[id]
+			nl := l.clone()
+			delete(nl.coef, id)
+			delete(nl.tm, id)
+			l = nl.plus(al, k)
 		}
 	}
 	return l
 }
 
-func c19ListLiteral(c *Ctx, info *types.Info, cl *ast.CompositeLit, st *types.Struct, pkgName string) {
-	key := pkgName + "/List literal starts at index 0, offset 0"
-	okAll := true
-	for i, el := range cl.Elts {
-		name := ""
-		val := el
-		if kv, ok := el.(*ast.KeyValueExpr); ok {
-			if id, ok := kv.Key.(*ast.Ident); ok {
-				name = id.Name
-			}
-			val = kv.Value
-		} else if i < st.NumFields() {
-			name = st.Field(i).Name()
-		}
-		if name == "index" || name == "offset" {
-			if v, ok := constInt(info, val); !ok || v != 0 {
-				okAll = false
-			}
-		}
-	}
-	c.check(okAll, "C19.a", key, cl.Pos(), "index and offset start at zero", "a List literal sets index/offset to something other than 0: not known to be inside the list")
-}
+func c19IsZeroLin(l *c19Lin) bool { return len(l.ids()) == 0 && l.k == 0 }
 
 // ---------------------------------------------------------------------------------------------
-// C19.b — widgets/pager
+// the check
 // ---------------------------------------------------------------------------------------------
 
-type c19PagerInfo struct {
-	pk                     *packages.Package
-	info                   *types.Info
-	fLines, fOffset, fWide *types.Var
-	lineT                  *types.Named
-	chars                  map[*types.Var]bool  // slice fields of line
-	appenders              map[*types.Func]bool // methods of line that append one element to a chars field
-	layouts                map[*types.Func]bool // functions that store to Model.lines
-}
+func runC19(c *Ctx) {
+	c19ModMemo = map[*types.Func][][]string{}
+	c19ModAll = map[*types.Func]bool{}
+	c19Graphs = map[*FuncInfo]*FG{}
+	c19C = c
+	c19Ctx, c19Bind = nil, nil
+	c.Clauses = []string{
+		"C19.a widgets/list: every store to List.index/offset keeps it >= 0 and every store to index keeps it <= max(0,len(items)-1) (intervals, helper summaries, one guard used once); a store to items is paired with a clamping store to index; every access to items stays within the slice",
+		"C19.e widgets/list: where items are accessed for drawing offset <= index < offset+height; item J is drawn on row J-offset; the highlighted item is the one at List.index",
+		"C19.b widgets/pager: the layout's pending line is flushed on every path to return, never overwritten, stored twice or appended to after being stored; lines are reset once before the first flush; the column counter advances with every cell and restarts after each flush; a line is closed when col >= width; the draw function reaches the lines with 0 <= Offset, Offset clamped to the content and the lines laid out for the recorded window width; line J is drawn on row J-Offset",
+		"C19.c vxfw/list: unsigned subtractions reaching an index or the scroll state are ordered by the facts in force (helpers are analysed in the context of their callers; the wantsCursor site is an exception whose side conditions are checked); index expressions stay within [0,len); a selection change re-anchors the scroll state before the function returns (wantsCursor raised under cursor >= top, or top = cursor with offset = 0); pending is reset after it is read",
+		"C19.d every integer division of the anchored files has a divisor that the facts in force make non-zero",
+	}
+	c.NotDec = []string{
+		"visibility of the selected item after a draw of the dynamic list (depends on measured item heights)",
+		"contiguity and non-overlap of the laid-out items of the dynamic list",
+		"loss-free wrapping of wide characters at the window edge in the pager",
+	}
+	c.Assume = append(c.Assume,
+		"Builder callbacks and child Draw methods do not mutate the list that calls them",
+		"integer values stay below 2^63 (integer conversions are order preserving); the only wrap-around considered is the unsigned subtraction that rule C19.c excludes")
+	// minima are on what must exist semantically (kinds of constructs), not on how the code is cut up
+	c.expect("C19.a", 4)
+	c.expect("C19.e", 1)
+	c.expect("C19.b", 10)
+	c.expect("C19.c", 8)
+	c.expect("C19.d", 1)
 
-func c19Pager(c *Ctx) {
-	const pkgName = "widgets/pager"
-	pk := c.P.Pkg(pkgName)
-	if pk == nil {
-		c.undecided("C19.b", pkgName, 0, "package not found")
-		return
-	}
-	info := pk.TypesInfo
-	_, st := c19StructOf(pk, "Model")
-	pi := &c19PagerInfo{pk: pk, info: info, fLines: c19FieldNamed(st, "lines"), fOffset: c19FieldNamed(st, "Offset"), fWide: c19FieldNamed(st, "width"),
-		chars: map[*types.Var]bool{}, appenders: map[*types.Func]bool{}, layouts: map[*types.Func]bool{}}
-	if pi.fLines == nil || pi.fOffset == nil || pi.fWide == nil {
-		c.undecided("C19.b", pkgName+".Model", 0, "type Model with fields lines, Offset, width not found")
-		return
-	}
-	// the line type: element of Model.lines
-	if sl, ok := pi.fLines.Type().Underlying().(*types.Slice); ok {
-		el := sl.Elem()
-		if p, ok := el.(*types.Pointer); ok {
-			el = p.Elem()
-		}
-		pi.lineT, _ = el.(*types.Named)
-	}
-	if pi.lineT == nil {
-		c.undecided("C19.b", pkgName+".Model.lines", pi.fLines.Pos(), "Model.lines is not a slice of (pointers to) a named line type")
-		return
-	}
-	if ls, ok := pi.lineT.Underlying().(*types.Struct); ok {
-		for i := 0; i < ls.NumFields(); i++ {
-			if _, ok := ls.Field(i).Type().Underlying().(*types.Slice); ok {
-				pi.chars[ls.Field(i)] = true
-			}
-		}
-	}
-	for _, fi := range c.P.FuncsIn(pkgName) {
-		if fi.Decl.Body == nil {
-			continue
-		}
-		if recv := c19RecvObj(fi); recv != nil {
-			t := recv.Type()
-			if p, ok := t.(*types.Pointer); ok {
-				t = p.Elem()
-			}
-			if types.Identical(t, pi.lineT) && len(fi.Decl.Body.List) == 1 {
-				if as, ok := fi.Decl.Body.List[0].(*ast.AssignStmt); ok && pi.isCharsAppend(as) != nil && rootObj(info, as.Lhs[0]) == recv {
-					pi.appenders[fi.Obj] = true
-				}
-			}
-		}
-		if g := c19Graph(c, fi); g != nil && len(c19Stores(g, pi.fLines)) > 0 {
-			pi.layouts[fi.Obj] = true
-		}
-	}
-	nLayout, nDraw := 0, 0
-	for _, fi := range c.P.FuncsIn(pkgName) {
-		g := c19Graph(c, fi)
-		if g == nil {
-			continue
-		}
-		if pi.layouts[fi.Obj] {
-			nLayout++
-			c19PagerLayout(c, pi, fi, g)
-			continue
-		}
-		uses := false
-		ast.Inspect(fi.Decl.Body, func(n ast.Node) bool {
-			switch t := n.(type) {
-			case *ast.RangeStmt:
-				if c19SelField(info, t.X) == pi.fLines {
-					uses = true
-				}
-			case *ast.IndexExpr:
-				if c19SelField(info, t.X) == pi.fLines {
-					uses = true
-				}
-			case *ast.SliceExpr:
-				if c19SelField(info, t.X) == pi.fLines {
-					uses = true
-				}
-			}
-			return true
-		})
-		if uses {
-			nDraw++
-			c19PagerDraw(c, pi, fi, g)
-		}
-	}
-	if nLayout == 0 {
-		c.undecided("C19.b", pkgName+"/layout", 0, "no function stores to Model.lines")
-	}
-	if nDraw == 0 {
-		c.undecided("C19.b", pkgName+"/draw", 0, "no function iterates over Model.lines")
-	}
-}
-
-// isCharsAppend: x.chars = append(x.chars, v) ; returns x.
-func (pi *c19PagerInfo) isCharsAppend(as *ast.AssignStmt) ast.Expr {
-	if len(as.Lhs) != 1 || len(as.Rhs) != 1 || as.Tok != token.ASSIGN {
-		return nil
-	}
-	fv := c19SelField(pi.info, as.Lhs[0])
-	if fv == nil || !pi.chars[fv] {
-		return nil
-	}
-	call, ok := unparen(as.Rhs[0]).(*ast.CallExpr)
-	if !ok || c19IsBuiltin(pi.info, call, "append") == "" || len(call.Args) < 2 {
-		return nil
-	}
-	if c19SelField(pi.info, call.Args[0]) != fv || termOf(pi.info, call.Args[0]).ID != termOf(pi.info, as.Lhs[0]).ID {
-		return nil
-	}
-	return unparen(as.Lhs[0]).(*ast.SelectorExpr).X
-}
-
-func (pi *c19PagerInfo) isLinePtr(t types.Type) bool {
-	if p, ok := t.(*types.Pointer); ok {
-		return types.Identical(p.Elem(), pi.lineT)
-	}
-	return false
-}
-
-// events of one CFG node of a layout function
-type c19LineEvent struct {
-	kind string // fresh | append | flush | reset | otherLines | otherVar
-	v    types.Object
-}
-
-func (pi *c19PagerInfo) events(n ast.Node) []c19LineEvent {
-	info := pi.info
-	var out []c19LineEvent
-	inspectNoLit(n, func(m ast.Node) bool {
-		switch s := m.(type) {
-		case *ast.CallExpr:
-			if fn := calleeOf(info, s); fn != nil && pi.appenders[fn] {
-				if sel, ok := unparen(s.Fun).(*ast.SelectorExpr); ok {
-					if id, ok := unparen(sel.X).(*ast.Ident); ok {
-						out = append(out, c19LineEvent{"append", info.ObjectOf(id)})
-					} else {
-						out = append(out, c19LineEvent{"otherVar", nil})
-					}
-				}
-			}
-		case *ast.AssignStmt:
-			if x := pi.isCharsAppend(s); x != nil {
-				if id, ok := unparen(x).(*ast.Ident); ok {
-					out = append(out, c19LineEvent{"append", info.ObjectOf(id)})
-				} else {
-					out = append(out, c19LineEvent{"otherVar", nil})
-				}
-				return true
-			}
-			for i, l := range s.Lhs {
-				if c19SelField(info, l) == pi.fLines {
-					var rhs ast.Expr
-					if len(s.Lhs) == len(s.Rhs) {
-						rhs = unparen(s.Rhs[i])
-					}
-					out = append(out, pi.linesStore(l, rhs))
-					continue
-				}
-				if id, ok := unparen(l).(*ast.Ident); ok && id.Name != "_" {
-					if o := info.ObjectOf(id); o != nil && pi.isLinePtr(o.Type()) {
-						var rhs ast.Expr
-						if len(s.Lhs) == len(s.Rhs) {
-							rhs = unparen(s.Rhs[i])
-						}
-						if pi.isFreshLine(rhs) {
-							out = append(out, c19LineEvent{"fresh", o})
-						} else {
-							out = append(out, c19LineEvent{"otherVar", o})
-						}
-					}
-				}
-			}
-		}
-		return true
-	})
-	return out
-}
-
-func (pi *c19PagerInfo) isFreshLine(rhs ast.Expr) bool {
-	switch t := rhs.(type) {
-	case *ast.UnaryExpr:
-		if cl, ok := unparen(t.X).(*ast.CompositeLit); ok && t.Op == token.AND {
-			return len(cl.Elts) == 0 && types.Identical(pi.info.TypeOf(cl), pi.lineT)
-		}
-	case *ast.CallExpr:
-		if c19IsBuiltin(pi.info, t, "new") != "" && len(t.Args) == 1 {
-			return types.Identical(pi.info.TypeOf(t.Args[0]), pi.lineT)
-		}
-	}
-	return false
-}
-
-func (pi *c19PagerInfo) linesStore(lhs, rhs ast.Expr) c19LineEvent {
-	info := pi.info
-	switch t := rhs.(type) {
-	case *ast.CompositeLit:
-		if len(t.Elts) == 0 {
-			return c19LineEvent{"reset", nil}
-		}
-	case *ast.Ident:
-		if isNilExpr(info, t) {
-			return c19LineEvent{"reset", nil}
-		}
-	case *ast.SliceExpr:
-		if c19SelField(info, t.X) == pi.fLines && t.Low == nil && t.High != nil {
-			if v, ok := constInt(info, t.High); ok && v == 0 {
-				return c19LineEvent{"reset", nil}
-			}
-		}
-	case *ast.CallExpr:
-		if c19IsBuiltin(info, t, "make") != "" && len(t.Args) >= 2 {
-			if v, ok := constInt(info, t.Args[1]); ok && v == 0 {
-				return c19LineEvent{"reset", nil}
-			}
-		}
-		if c19IsBuiltin(info, t, "append") != "" && len(t.Args) == 2 && t.Ellipsis == token.NoPos &&
-			c19SelField(info, t.Args[0]) == pi.fLines && termOf(info, t.Args[0]).ID == termOf(info, lhs).ID {
-			if id, ok := unparen(t.Args[1]).(*ast.Ident); ok {
-				return c19LineEvent{"flush", info.ObjectOf(id)}
-			}
-		}
-	}
-	return c19LineEvent{"otherLines", nil}
-}
-
-const (
-	c19LineFresh   = 0
-	c19LineDirty   = 1
-	c19LineFlushed = 2
-)
-
-func c19PagerLayout(c *Ctx, pi *c19PagerInfo, fi *FuncInfo, g *FG) {
-	info := pi.info
-	type site struct {
-		Loc
-		n  ast.Node
-		ev c19LineEvent
-	}
-	var sites []site
-	var lineVar types.Object
-	undec := ""
-	for _, b := range g.Blocks {
-		for i, n := range b.Nodes {
-			for _, ev := range pi.events(n) {
-				sites = append(sites, site{Loc{b, i}, n, ev})
-				switch ev.kind {
-				case "otherLines":
-					undec = "a store to Model.lines that is neither a reset nor lines = append(lines, l): " + c19Short(n)
-				case "otherVar":
-					undec = "a line variable is assigned something other than a fresh &line{}: " + c19Short(n)
-				case "flush", "append", "fresh":
-					if lineVar == nil {
-						lineVar = ev.v
-					} else if ev.v != lineVar {
-						undec = "more than one pending-line variable"
-					}
-				}
-			}
-		}
-	}
-	nAppend := 0
-	for _, s := range sites {
-		if s.ev.kind == "append" {
-			nAppend++
-		}
-	}
-	if undec == "" && nAppend == 0 {
-		undec = "no append of a cell to the pending line was recognised (a method of the line type whose body is x.chars = append(x.chars, v), or that statement inline)"
-	}
-	if undec != "" || lineVar == nil {
-		if undec == "" {
-			undec = "no pending-line variable found"
-		}
-		c.undecided("C19.b", fi.Name+"/pending line typestate", fi.Decl.Pos(), "%s", undec)
-		return
-	}
-	fl := c19NewFlow(c, g, c19WithLen(c19TypeBounds(c, pi.pk)))
-	fl.seedRoot[lineVar] = true
-	fl.ghostInit = c19LineFresh
-	fl.ghost = func(n ast.Node, st uint32) []uint32 {
-		evs := pi.events(n)
-		if len(evs) == 0 {
-			return nil
-		}
-		gs := st >> c19GhostShift & 3
-		for _, ev := range evs {
-			switch ev.kind {
-			case "fresh":
-				gs = c19LineFresh
-			case "append":
-				if gs == c19LineFresh {
-					gs = c19LineDirty
-				}
-			case "flush":
-				gs = c19LineFlushed
-			}
-		}
-		return []uint32{st&^(3<<c19GhostShift) | gs<<c19GhostShift}
-	}
-	// dirty implies len(l.chars) >= 1, fresh implies len(l.chars) == 0
-	var lenBase *c19Lin
-	lenSearched := false
-	fl.feasibleX = func(fl *c19Flow, st uint32) bool {
-		if !lenSearched {
-			lenSearched = true
-			for _, p := range fl.tracked {
-				if p.kind == "bool" || len(p.terms) != 1 || !p.terms[0].isLen || p.base.coef[p.terms[0].id] != 1 {
-					continue
-				}
-				for _, rp := range p.terms[0].paths {
-					if rp.root == lineVar && len(rp.path) == 1 {
-						lenBase = p.base
-					}
-				}
-			}
-		}
-		if lenBase == nil {
-			return true
-		}
-		lo, hi := fl.interval(st, lenBase, c19BaseKey(lenBase))
-		switch st >> c19GhostShift & 3 {
-		case c19LineDirty:
-			return hi >= 1
-		case c19LineFresh:
-			return lo <= 0
-		}
-		return true
-	}
-	// the column counter: a local compared with Model.width
-	var colObj types.Object
-	var colLtWidth *c19Form
-	for _, b := range g.Blocks {
-		cnd := g.BranchCond(b)
-		if cnd == nil || cnd.Tag != nil {
-			continue
-		}
-		inspectNoLit(cnd.Expr, func(n ast.Node) bool {
-			be, ok := n.(*ast.BinaryExpr)
-			if !ok || !isIntegerExpr(info, be.X) || !isIntegerExpr(info, be.Y) {
-				return true
-			}
-			switch be.Op {
-			case token.LSS, token.LEQ, token.GTR, token.GEQ, token.EQL, token.NEQ:
-			default:
-				return true
-			}
-			l := c19LinOf(info, be.X).plus(c19LinOf(info, be.Y), -1)
-			var widthT, colT *c19Term
-			for _, id := range l.ids() {
-				t := l.tm[id]
-				if c19SelField(info, t.ex) == pi.fWide {
-					widthT = t
-				} else if idn, ok := t.ex.(*ast.Ident); ok && len(l.ids()) == 2 {
-					if v, ok := info.ObjectOf(idn).(*types.Var); ok && !v.IsField() && v.Parent() != pi.pk.Types.Scope() {
-						colT = t
-					}
-				}
-			}
-			if widthT != nil && colT != nil && colObj == nil {
-				colObj = info.ObjectOf(colT.ex.(*ast.Ident))
-				colLtWidth = fl.goal(fl.le(c19LinOf(info, colT.ex).plus(c19LinOf(info, widthT.ex), -1).addK(1)))
-			}
-			return true
-		})
-	}
-	fl.solve()
-	if fl.err != "" {
-		c.undecided("C19.b", fi.Name+"/pending line typestate", fi.Decl.Pos(), "%s", fl.err)
-		return
-	}
-	ghostOf := func(st uint32) uint32 { return st >> c19GhostShift & 3 }
-	anyGhost := func(sts map[uint32]bool, want uint32) bool {
-		for st := range sts {
-			if ghostOf(st) == want {
-				return true
-			}
-		}
-		return false
-	}
-	lname := lineVar.Name()
-	// exits
-	if len(fl.exitStates()) == 0 {
-		c.undecided("C19.b", fi.Name+"/pending line flushed at return", fi.Decl.Body.Rbrace, "no abstract state reaches a return of %s", fi.Name)
-		return
-	}
-	c.check(!anyGhost(fl.exitStates(), c19LineDirty), "C19.b", fi.Name+"/pending line flushed at return", fi.Decl.Body.Rbrace,
-		"no path reaches a return with cells appended to "+lname+" that were not stored in lines",
-		"a path from "+lname+".append to return skips lines = append(lines, "+lname+"): a last line without terminator (or shorter than the width) is never presented")
-	var flushes []site
-	for _, s := range sites {
-		pre := fl.statesAt(s.Loc)
-		if len(pre) == 0 && s.ev.kind != "reset" {
-			c.undecided("C19.b", fi.Name+"/"+s.ev.kind+" site reachable", s.n.Pos(), "no abstract state reaches %s", c19Short(s.n))
-			continue
-		}
-		switch s.ev.kind {
-		case "fresh":
-			c.check(!anyGhost(pre, c19LineDirty), "C19.b", fi.Name+"/fresh line replaces only a stored or empty line", s.n.Pos(),
-				"the line variable is never overwritten while it holds unstored cells", "a line holding cells that were not stored in lines is overwritten: text is lost")
-		case "append":
-			c.check(!anyGhost(pre, c19LineFlushed), "C19.b", fi.Name+"/append goes to an unstored line", s.n.Pos(),
-				"cells are appended only to a line that is not yet in lines", "cells are appended to a line that is already stored in lines: the line break is lost and a later flush stores the line twice")
-			if colLtWidth == nil {
-				c.undecided("C19.b", fi.Name+"/line closed when col >= width", s.n.Pos(), "no comparison of a local column counter with Model.width found")
-			} else {
-				okAll, wit := true, ""
-				var sts []uint32
-				for st := range pre {
-					sts = append(sts, st)
-				}
-				sort.Slice(sts, func(i, j int) bool { return sts[i] < sts[j] })
-				for _, st := range sts {
-					if okAll && ghostOf(st) == c19LineDirty && fl.eval3(colLtWidth, st) != 1 {
-						okAll, wit = false, fl.describe(st)
-					}
-				}
-				c.check(okAll, "C19.b", fi.Name+"/line closed when col >= width", s.n.Pos(),
-					"a cell is appended to a non-empty line only while "+colObj.Name()+" < width",
-					"a cell can be appended to a non-empty line although "+colObj.Name()+" >= width ("+wit+"): the line is longer than the window and its tail is clipped")
-			}
-		case "flush":
-			flushes = append(flushes, s)
-			c.check(!anyGhost(pre, c19LineFlushed), "C19.b", fi.Name+"/line stored once", s.n.Pos(),
-				"a line is stored in lines at most once", "the same line can be stored in lines twice")
-			isReset := func(n ast.Node) bool {
-				for _, ev := range pi.events(n) {
-					if ev.kind == "reset" {
-						return true
-					}
-				}
-				return false
-			}
-			c.check(g.MustPrecede(isReset, s.Loc), "C19.b", fi.Name+"/lines reset before flush", s.n.Pos(),
-				"every path to the flush has emptied lines first", "lines is not emptied before lines are appended: a second Layout (every width change) duplicates the text")
-		case "reset":
-			c.check(!g.inLoopWith(s.B, nil), "C19.b", fi.Name+"/lines reset outside the loops", s.n.Pos(),
-				"lines is emptied once, not per character", "lines is emptied inside a loop: earlier lines are dropped")
-		}
-	}
-	// the column counter advances with every appended cell, before it is tested or the next cell is appended
-	if colObj != nil {
-		for _, s := range sites {
-			if s.ev.kind != "append" {
-				continue
-			}
-			bad := ""
-			g.walk(Loc{s.B, s.Idx + 1}, func(l Loc, n ast.Node) bool {
-				switch st := n.(type) {
-				case *ast.AssignStmt:
-					if len(st.Lhs) == 1 && len(st.Rhs) == 1 {
-						if id, ok := st.Lhs[0].(*ast.Ident); ok && info.ObjectOf(id) == colObj {
-							adds := st.Tok == token.ADD_ASSIGN
-							if st.Tok == token.ASSIGN {
-								l := c19LinOf(info, st.Rhs[0])
-								adds = l.coef[termOf(info, id).ID] == 1 && len(l.ids()) > 1
-							}
-							if adds {
-								return false
-							}
-						}
-					}
-				case *ast.IncDecStmt:
-					if id, ok := st.X.(*ast.Ident); ok && info.ObjectOf(id) == colObj && st.Tok == token.INC {
-						return false
-					}
-				}
-				uses := false
-				inspectNoLit(n, func(m ast.Node) bool {
-					if id, ok := m.(*ast.Ident); ok && info.Uses[id] == colObj {
-						uses = true
-					}
-					return true
-				})
-				isApp := false
-				for _, ev := range pi.events(n) {
-					if ev.kind == "append" {
-						isApp = true
-					}
-				}
-				if (uses || isApp) && bad == "" {
-					bad = c19Short(n)
-					return false
-				}
-				return true
-			}, nil)
-			c.check(bad == "", "C19.b", fi.Name+"/column advances with each cell", s.n.Pos(),
-				colObj.Name()+" is increased after the append before it is tested again",
-				colObj.Name()+" is tested or the next cell appended ("+bad+") without having been advanced by the cell's width: lines never fill up and are not wrapped at the window width")
-		}
-	}
-	// the column counter restarts after every flush
-	if colObj != nil {
-		for _, s := range flushes {
-			bad := ""
-			g.walk(Loc{s.B, s.Idx + 1}, func(l Loc, n ast.Node) bool {
-				if as, ok := n.(*ast.AssignStmt); ok && len(as.Lhs) == 1 && len(as.Rhs) == 1 && (as.Tok == token.ASSIGN || as.Tok == token.DEFINE) {
-					if id, ok := as.Lhs[0].(*ast.Ident); ok && info.ObjectOf(id) == colObj {
-						if v, ok := constInt(info, as.Rhs[0]); ok && v == 0 {
-							return false
-						}
-					}
-				}
-				uses := false
-				inspectNoLit(n, func(m ast.Node) bool {
-					if id, ok := m.(*ast.Ident); ok && info.Uses[id] == colObj {
-						uses = true
-					}
-					return true
-				})
-				if uses && bad == "" {
-					bad = c19Short(n)
-					return false
-				}
-				return true
-			}, nil)
-			c.check(bad == "", "C19.b", fi.Name+"/column restarts after flush", s.n.Pos(),
-				colObj.Name()+" = 0 follows the flush before "+colObj.Name()+" is used again",
-				colObj.Name()+" is used again ("+bad+") after a flush without being reset to 0: every following cell closes its own line")
-		}
-	}
-}
-
-func c19PagerDraw(c *Ctx, pi *c19PagerInfo, fi *FuncInfo, g *FG) {
-	info := pi.info
-	recv := c19RecvObj(fi)
-	offSel := c19FindSel(fi, pi.fOffset)
-	var sinks []Loc
-	var sinkPos []token.Pos
-	var linesExpr ast.Expr
-	ast.Inspect(fi.Decl.Body, func(n ast.Node) bool {
-		var x ast.Expr
-		switch t := n.(type) {
-		case *ast.RangeStmt:
-			x = t.X
-		case *ast.IndexExpr:
-			x = t.X
-		case *ast.SliceExpr:
-			x = t.X
-		}
-		if x != nil && c19SelField(info, x) == pi.fLines {
-			if l, ok := g.Locate(x); ok {
-				sinks = append(sinks, l)
-				sinkPos = append(sinkPos, x.Pos())
-				linesExpr = x
-			}
-		}
-		return true
-	})
-	if recv == nil || offSel == nil || len(sinks) == 0 {
-		c.undecided("C19.b", fi.Name+"/offset clamped", fi.Decl.Pos(), "the function reads Model.lines but no use of Offset (or no receiver) was found")
-		return
-	}
-	wVar, hVar := c19SizeVars(g)
-	fl := c19NewFlow(c, g, c19WithLen(c19TypeBounds(c, pi.pk)))
-	off := c19LinOf(info, offSel)
-	lenLines := c19LenLin(info, linesExpr)
-	nonNeg := fl.goal(fl.ge0(off))
-	alts := []*c19Form{fl.eq(off), fl.ge0(lenLines.plus(off, -1).addK(-1))} // Offset == 0 or len(lines)-Offset >= 1
-	if hVar != nil {
-		alts = append(alts, fl.ge0(lenLines.plus(off, -1).plus(c19LinOf(info, hVar), -1))) // len(lines)-Offset >= h
-	}
-	clamped := fl.goal(c19Or(alts...))
-	// layout for the current width
-	widthStores := c19Stores(g, pi.fWide)
-	isLayoutCall := func(n ast.Node) bool {
-		call, ok := n.(*ast.CallExpr)
-		if !ok {
-			return false
-		}
-		fn := calleeOf(info, call)
-		return fn != nil && pi.layouts[fn]
-	}
-	layoutCalls := g.Find(isLayoutCall)
-	var sameWidth *c19Form
-	if wVar != nil && len(widthStores) > 0 {
-		sameWidth = fl.goal(fl.eq(c19LinOf(info, wVar).plus(c19LinOf(info, widthStores[0].lhs), -1)))
-	}
-	fl.solve()
-	for i, l := range sinks {
-		fl.prove("C19.b", fi.Name+"/Offset >= 0 at the draw loop", sinkPos[i], l, nonNeg, "Offset >= 0",
-			"rows are drawn at row-Offset with a negative Offset (ScrollUp decrements without bound): the text is shifted down instead of clamped")
-		fl.prove("C19.b", fi.Name+"/Offset clamped to the content at the draw loop", sinkPos[i], l, clamped, "Offset == 0, or Offset <= len(lines)-h, or Offset < len(lines)",
-			"the scroll offset can point beyond the content (ScrollDown increments without bound)")
-		if sameWidth != nil {
-			fl.prove("C19.b", fi.Name+"/lines laid out for the window width at the draw loop", sinkPos[i], l, sameWidth, "recorded width == window width",
-				"the lines were wrapped for another width than the window's")
-		}
-	}
-	// every line is drawn at row - Offset
-	nSet := 0
-	ast.Inspect(fi.Decl.Body, func(n ast.Node) bool {
-		rs, ok := n.(*ast.RangeStmt)
-		if !ok || c19SelField(info, rs.X) != pi.fLines {
-			return true
-		}
-		kid, ok := rs.Key.(*ast.Ident)
-		if !ok || kid.Name == "_" {
-			return true
-		}
-		want := c19LinOf(info, kid).plus(off, -1)
-		ast.Inspect(rs.Body, func(m ast.Node) bool {
-			call, ok := m.(*ast.CallExpr)
-			if !ok {
-				return true
-			}
-			fn := calleeOf(info, call)
-			if fn == nil || !strings.HasPrefix(repoName(fn), "vaxis.Window.") {
-				return true
-			}
-			if arg := c19ParamArg(fn, call, "row"); arg != nil {
-				nSet++
-				l := c19Resolve(fi, c19LinOf(info, arg)).plus(want, -1)
-				c.check(len(l.ids()) == 0 && l.k == 0, "C19.b", fi.Name+"/line drawn at row - Offset", call.Pos(),
-					"the row passed to "+fn.Name()+" is the line number minus Offset", "the row passed to "+fn.Name()+" is "+types.ExprString(arg)+", not the line number minus Offset: lines are not presented in order from the scroll offset")
-			}
-			return true
-		})
-		return true
-	})
-	if nSet == 0 {
-		c.undecided("C19.b", fi.Name+"/line drawn at row - Offset", fi.Decl.Pos(), "no Window drawing call with a row parameter inside a range over lines")
-	}
-	if len(layoutCalls) == 0 || wVar == nil || len(widthStores) == 0 {
-		c.bad("C19.b", fi.Name+"/relayout on width change", fi.Decl.Pos(), "the draw function does not record the window width and call the layout function: the text is never wrapped at the window width (width is unexported, only this function can set it)")
-		return
-	}
-	for _, ws := range widthStores {
-		fromSize := false
-		if id, ok := unparen(ws.rhs).(*ast.Ident); ok && ws.rhs != nil && info.ObjectOf(id) == info.ObjectOf(wVar) {
-			fromSize = true
-		}
-		reach := false
-		for _, l := range sinks {
-			if g.ReachesAvoiding(ws.Loc, l, isLayoutCall) {
-				reach = true
-			}
-		}
-		c.check(fromSize && !reach, "C19.b", fi.Name+"/width store followed by layout", ws.stmt.Pos(),
-			"the width recorded is the window's and every path from the store to the draw loop lays the text out again",
-			"the recorded width is not the first result of Window.Size, or the draw loop is reachable from the store without a new layout: the text is wrapped at a stale width")
-	}
-	for _, h := range layoutCalls {
-		isWidthStore := func(n ast.Node) bool {
-			for _, ws := range widthStores {
-				if n == ast.Node(ws.stmt) {
-					return true
-				}
-			}
-			return false
-		}
-		c.check(g.MustPrecede(isWidthStore, h.Loc), "C19.b", fi.Name+"/layout uses the recorded width", h.Node.Pos(),
-			"the width is stored before the layout function reads it", "the layout function is called before the window width is recorded: it wraps at the previous width")
-	}
-}
-
-// ---------------------------------------------------------------------------------------------
-// C19.c — vxfw/list
-// ---------------------------------------------------------------------------------------------
-
-type c19Sink struct {
-	Loc
-	pos  token.Pos
-	desc string
-	kind string // index | state | signed
-}
-
-type c19Sub struct {
-	a, b   *c19Lin
-	text   string
-	pos    token.Pos
-	def    Loc
-	sinks  []c19Sink
-	note   string // why it is not a sink
-	ctx    string // enclosing boolean-field condition, for the key
-	isStmt bool   // x -= e / x--
-}
-
-func c19VxfwList(c *Ctx) {
-	const pkgName = "vxfw/list"
-	pk := c.P.Pkg(pkgName)
-	if pk == nil {
-		c.undecided("C19.c", pkgName, 0, "package not found")
-		return
-	}
-	info := pk.TypesInfo
-	_, st := c19StructOf(pk, "Dynamic")
-	fCursor, fScroll := c19FieldNamed(st, "cursor"), c19FieldNamed(st, "scroll")
-	var sst *types.Struct
-	if fScroll != nil {
-		sst, _ = fScroll.Type().Underlying().(*types.Struct)
-	}
-	fTop, fOff, fPending, fWants := c19FieldNamed(sst, "top"), c19FieldNamed(sst, "offset"), c19FieldNamed(sst, "pending"), c19FieldNamed(sst, "wantsCursor")
-	if fCursor == nil || fTop == nil || fOff == nil || fPending == nil || fWants == nil {
-		c.undecided("C19.c", pkgName+".Dynamic", 0, "type Dynamic with cursor and scroll{top,offset,pending,wantsCursor} not found")
-		return
-	}
-	parents := c.P.Parents(pk)
-	bounds := c19WithLen(c19TypeBounds(c, pk))
-	funcs := c.P.FuncsIn(pkgName)
-
-	// ---- ensureScroll-like functions: those that raise wantsCursor
-	ensure := map[*types.Func]bool{}
-	isTrueStore := func(s c19Store) bool {
-		v, ok := c19BoolConst(info, s.rhs)
-		return s.rhs != nil && ok && v
-	}
-	for _, fi := range funcs {
-		if g := c19Graph(c, fi); g != nil {
-			for _, s := range c19Stores(g, fWants) {
-				if isTrueStore(s) {
-					ensure[fi.Obj] = true
-				}
-			}
-		}
-	}
-	isEnsureCall := func(n ast.Node) bool {
-		call, ok := n.(*ast.CallExpr)
-		if !ok {
-			return false
-		}
-		fn := calleeOf(info, call)
-		return fn != nil && ensure[fn]
-	}
-	if len(ensure) == 0 {
-		c.undecided("C19.c", pkgName+"/ensureScroll", 0, "no function raises scroll.wantsCursor: the re-anchoring mechanism was not found")
-	}
-
-	r1OK, r3OK := true, true
-	// ---- R1 and the exit condition of the ensure functions
-	for _, fi := range funcs {
-		if !ensure[fi.Obj] {
-			continue
-		}
-		g := c19Graph(c, fi)
-		curSel, topSel := c19FindSel(fi, fCursor), c19FindSel(fi, fTop)
-		if curSel == nil || topSel == nil {
-			c.undecided("C19.c", fi.Name+"/wantsCursor raised only when cursor >= top", fi.Decl.Pos(), "the function does not mention cursor and scroll.top")
-			r1OK = false
-			continue
-		}
-		fl := c19NewFlow(c, g, bounds)
-		diff := c19LinOf(info, topSel).plus(c19LinOf(info, curSel), -1) // top - cursor
-		below := fl.goal(fl.le(diff))
-		same := fl.goal(fl.eq(diff))
-		fl.ghost = func(n ast.Node, st uint32) []uint32 {
-			if as, ok := n.(*ast.AssignStmt); ok {
-				for i, l := range as.Lhs {
-					if c19SelField(info, l) == fWants && len(as.Lhs) == len(as.Rhs) {
-						if v, ok := c19BoolConst(info, as.Rhs[i]); ok && v {
-							return []uint32{st | 1<<c19GhostShift}
-						}
-					}
-				}
-			}
-			return nil
-		}
-		fl.solve()
-		for _, s := range c19Stores(g, fWants) {
-			if !isTrueStore(s) {
-				continue
-			}
-			if !fl.prove("C19.c", fi.Name+"/wantsCursor raised only when cursor >= top", s.stmt.Pos(), s.Loc, below, "scroll.top <= cursor",
-				"wantsCursor can be raised with the cursor above the top item; Draw then computes cursor - top on unsigned operands and indexes Children with the wrapped value") {
-				r1OK = false
-			}
-		}
-		if fl.err == "" {
-			okAll, wit := true, ""
-			var sts []uint32
-			for st := range fl.exitStates() {
-				sts = append(sts, st)
-			}
-			if len(sts) == 0 {
-				c.undecided("C19.c", fi.Name+"/returns with wantsCursor raised or top == cursor", fi.Decl.Pos(), "no abstract state reaches a return")
-			}
-			sort.Slice(sts, func(i, j int) bool { return sts[i] < sts[j] })
-			for _, st := range sts {
-				if st>>c19GhostShift&1 == 0 && fl.eval3(same, st) != 1 {
-					okAll, wit = false, fl.describe(st)
-				}
-			}
-			c.check(okAll, "C19.c", fi.Name+"/returns with wantsCursor raised or top == cursor", fi.Decl.Pos(),
-				"every return has either raised wantsCursor or re-anchored scroll.top = cursor",
-				"a return is reachable with neither wantsCursor raised nor top = cursor ("+wit+"): after a selection change the next draw does not bring the selected item into view")
-		}
-		isOffZero := func(n ast.Node) bool {
-			as, ok := n.(*ast.AssignStmt)
-			if !ok || len(as.Lhs) != 1 || len(as.Rhs) != 1 || as.Tok != token.ASSIGN || c19SelField(info, as.Lhs[0]) != fOff {
-				return false
-			}
-			v, ok := constInt(info, as.Rhs[0])
-			return ok && v == 0
-		}
-		for _, s := range c19Stores(g, fTop) {
-			after, _ := g.MustFollow(s.Loc, isOffZero)
-			c.check(after || g.MustPrecede(isOffZero, s.Loc), "C19.c", fi.Name+"/re-anchoring top resets the line offset", s.stmt.Pos(),
-				"scroll.offset = 0 accompanies the store to scroll.top", "scroll.top is re-anchored without scroll.offset = 0: the selected item is drawn scrolled by the stale line offset and can be cut off or invisible")
-		}
-	}
-	// ---- R3: every store to cursor is followed by an ensure call
-	for _, fi := range funcs {
-		g := c19Graph(c, fi)
-		if g == nil {
-			continue
-		}
-		for _, s := range c19Stores(g, fCursor) {
-			ok, _ := g.MustFollow(s.Loc, isEnsureCall)
-			if !c.check(ok, "C19.c", fi.Name+"/store cursor followed by ensureScroll", s.stmt.Pos(),
-				"every path from the store to a return calls the function that re-anchors the scroll state",
-				"the cursor is changed without ensureScroll on some path: the selected item is not brought into view by the next draw (and cursor < top can reach the unsigned subtraction in Draw)") {
-				r3OK = false
-			}
-		}
-		// pending is reset after it is read
-		reads := g.Find(func(n ast.Node) bool {
-			e, ok := n.(ast.Expr)
-			if !ok || c19SelField(info, e) != fPending {
-				return false
-			}
-			switch p := parents[n].(type) {
-			case *ast.AssignStmt:
-				for _, l := range p.Lhs {
-					if l == e {
-						return false
-					}
-				}
-			case *ast.IncDecStmt:
-				return false
-			}
-			return true
-		})
-		isPendingZero := func(n ast.Node) bool {
-			as, ok := n.(*ast.AssignStmt)
-			if !ok || len(as.Lhs) != 1 || len(as.Rhs) != 1 || as.Tok != token.ASSIGN || c19SelField(info, as.Lhs[0]) != fPending {
-				return false
-			}
-			v, ok := constInt(info, as.Rhs[0])
-			return ok && v == 0
-		}
-		for _, h := range reads {
-			ok, _ := g.MustFollow(h.Loc, isPendingZero)
-			c.check(ok, "C19.c", fi.Name+"/pending scroll reset after use", h.Node.Pos(),
-				"scroll.pending = 0 follows the read on every path", "the pending scroll amount is applied but not reset on some path: the next draw scrolls again and moves a freshly selected item out of view")
-		}
-	}
-
-	// ---- stores to scroll.top (for the wantsCursor exception)
-	type topStore struct {
-		fi *FuncInfo
-		g  *FG
-		s  c19Store
-	}
-	var topStores []topStore
-	for _, fi := range funcs {
-		if g := c19Graph(c, fi); g != nil {
-			for _, s := range c19Stores(g, fTop) {
-				topStores = append(topStores, topStore{fi, g, s})
-			}
-		}
-	}
-
-	// ---- unsigned subtractions and index expressions, per function
-	for _, fi := range funcs {
-		g := c19Graph(c, fi)
-		if g == nil {
-			continue
-		}
-		recv := c19RecvObj(fi)
-		subs := c19FindSubs(c, fi, g, parents, recv)
-		type idxGoal struct {
-			h        Hit
-			lo, hi   *c19Form
-			loByType bool
-			name     string
-		}
-		var idxs []idxGoal
-		fl := c19NewFlow(c, g, bounds)
-		for _, h := range g.Find(func(n ast.Node) bool { _, ok := n.(*ast.IndexExpr); return ok }) {
-			ie := h.Node.(*ast.IndexExpr)
-			t := info.TypeOf(ie.X)
-			if t == nil {
-				continue
-			}
-			if _, ok := t.Underlying().(*types.Slice); !ok {
-				continue
-			}
-			name := types.ExprString(stripRecv(ie))
-			if c19IsRangeKey(info, parents, ie) {
-				c.okTrivial("C19.c", fi.Name+"/"+name+" within bounds", ie.Pos(), "the index is the key of the enclosing range over the same slice")
-				continue
-			}
-			il := c19LinOf(info, ie.Index)
-			ig := idxGoal{h: h, name: name}
-			if il.lower(bounds) >= 0 {
-				ig.loByType = true
-			} else {
-				ig.lo = fl.goalAt(fl.ge0(il), h.Loc)
-			}
-			ig.hi = fl.goalAt(fl.le(il.plus(c19LenLin(info, ie.X), -1).addK(1)), h.Loc)
-			idxs = append(idxs, ig)
-		}
-		if len(subs) == 0 && len(idxs) == 0 {
-			continue
-		}
-		var goals []*c19Form
-		for _, sb := range subs {
-			gf := fl.goal(fl.ge0(sb.a.plus(sb.b, -1)))
-			for _, sk := range sb.sinks {
-				fl.goalAt(gf, sk.Loc)
-			}
-			goals = append(goals, gf)
-		}
-		var wantsAtom *c19Form
-		if ws := c19FindSel(fi, fWants); ws != nil {
-			wantsAtom = fl.goal(fl.boolAtom(ws))
-		}
-		fl.solve()
-		for _, ig := range idxs {
-			if ig.loByType {
-				c.okTrivial("C19.c", fi.Name+"/"+ig.name+" index >= 0", ig.h.Node.Pos(), "the index is unsigned or a length")
-			} else {
-				fl.prove("C19.c", fi.Name+"/"+ig.name+" index >= 0", ig.h.Node.Pos(), ig.h.Loc, ig.lo, "index >= 0",
-					"the index can be -1 (the slice can be empty here: a Builder that returns nil for the item above the top, e.g. after the items were replaced by fewer) and Draw panics")
-			}
-			fl.prove("C19.c", fi.Name+"/"+ig.name+" index < len", ig.h.Node.Pos(), ig.h.Loc, ig.hi, "index < len",
-				"the index can reach len of the slice and Draw panics")
-		}
-		for i, sb := range subs {
-			key := fi.Name + "/" + sb.text
-			if sb.ctx != "" {
-				key += " under " + sb.ctx
-			}
-			if len(sb.sinks) == 0 {
-				c.okTrivial("C19.c", key+" not an index", sb.pos, "unsigned subtraction that reaches neither an index nor the scroll state (%s)", sb.note)
-				continue
-			}
-			if sb.note != "" {
-				c.undecided("C19.c", key, sb.pos, "%s", sb.note)
-				continue
-			}
-			seenDesc := map[string]bool{}
-			var sinks []c19Sink
-			// several uses of the same shape (read and write of Children[idx]) are one obligation: report the first that fails
-			for pass := 0; pass < 2; pass++ {
-				for _, sk := range sb.sinks {
-					if seenDesc[sk.desc] {
-						continue
-					}
-					failing := false
-					if fl.err == "" {
-						okHere, _ := fl.holds(fl.statesAt(sk.Loc), goals[i])
-						failing = !okHere
-					}
-					if pass == 0 && !failing {
-						continue
-					}
-					seenDesc[sk.desc] = true
-					sinks = append(sinks, sk)
-				}
-			}
-			for _, sk := range sinks {
-				skey := key + " reaches " + sk.desc
-				if fl.err != "" {
-					c.undecided("C19.c", skey, sk.pos, "the flow analysis does not understand %s: %s", fi.Name, fl.err)
-					continue
-				}
-				// operands unchanged between the subtraction and the sink
-				if sk.Loc != sb.def && c19ChangedBetween(fl, g, sb, sk.Loc) {
-					c.undecided("C19.c", skey, sk.pos, "an operand of %s is modified between the subtraction and its use", sb.text)
-					continue
-				}
-				sts := fl.statesAt(sk.Loc)
-				if len(sts) == 0 {
-					c.undecided("C19.c", skey, sk.pos, "no abstract state reaches the use in %s", fi.Name)
-					continue
-				}
-				ok, wit := fl.holds(sts, goals[i])
-				if ok {
-					c.ok("C19.c", skey, sk.pos, "%s holds in all %d abstract states reaching the use (predicates tracked: %d)", goals[i], len(sts), len(fl.tracked))
-					continue
-				}
-				// exception 1: a decrement at the function entry is a precondition of the function
-				if sb.isStmt && sk.kind == "state" && c19AtEntry(fl, g, sb) {
-					c19LiftToCallers(c, pk, fi, recv, sb, skey, bounds)
-					continue
-				}
-				// exception 2: the wantsCursor site
-				if wantsAtom != nil {
-					if under, _ := fl.holds(sts, wantsAtom); under && c19IsCursorMinusTop(info, sb, fCursor, fTop) {
-						why := ""
-						for _, ts := range topStores {
-							switch {
-							case ensure[ts.fi.Obj] && ts.s.tok == token.ASSIGN && c19SelField(info, ts.s.rhs) == fCursor:
-							case ts.s.tok == token.DEC:
-							case ts.s.tok == token.SUB_ASSIGN && func() bool { v, ok := constInt(info, ts.s.rhs); return ok && v >= 0 }():
-							case ts.fi == fi && !g.ReachesAvoiding(ts.s.Loc, sk.Loc, nil):
-							default:
-								why = "the store " + c19Short(ts.s.stmt) + " in " + ts.fi.Name + " can raise scroll.top above the cursor before this use"
-							}
-						}
-						if !r1OK {
-							why = "wantsCursor is not raised only under cursor >= top"
-						}
-						if !r3OK {
-							why = "a store to cursor is not followed by ensureScroll"
-						}
-						if why == "" {
-							c.ok("C19.c", skey, sk.pos, "listed exception: the use is dominated by scroll.wantsCursor, which is raised only under cursor >= top (obligation above); every store to cursor is followed by ensureScroll; every store to scroll.top is top = cursor, a decrement, or lies after this use in the same draw (where top+i stays below the cursor while wantsCursor remains raised)")
-							continue
-						}
-						c.bad("C19.c", skey, sk.pos, "cursor - top is unguarded and the exception argument for the wantsCursor site no longer holds: %s", why)
-						continue
-					}
-				}
-				c.bad("C19.c", skey, sk.pos, "%s is computed on unsigned operands and used (%s) without a guard ordering them: %s reachable with %s; when the left operand is smaller the value wraps to about 2^64 (e.g. cursor 0, wheel scroll past it, draw) and the index panics or the scroll state is corrupted", sb.text, sk.desc, goals[i], wit)
-			}
-		}
-	}
-}
-
-func c19IsCursorMinusTop(info *types.Info, sb *c19Sub, fCursor, fTop *types.Var) bool {
-	ia, ib := sb.a.ids(), sb.b.ids()
-	if len(ia) != 1 || len(ib) != 1 || sb.a.k != 0 || sb.b.k != 0 {
-		return false
-	}
-	return c19SelField(info, sb.a.tm[ia[0]].ex) == fCursor && c19SelField(info, sb.b.tm[ib[0]].ex) == fTop
-}
-
-func c19IsRangeKey(info *types.Info, parents map[ast.Node]ast.Node, ie *ast.IndexExpr) bool {
-	id, ok := unparen(ie.Index).(*ast.Ident)
-	if !ok {
-		return false
-	}
-	o := info.ObjectOf(id)
-	for cur := parents[ie]; cur != nil; cur = parents[cur] {
-		if rs, ok := cur.(*ast.RangeStmt); ok && rs.Key != nil {
-			if kid, ok := rs.Key.(*ast.Ident); ok && info.ObjectOf(kid) == o && termOf(info, rs.X).ID == termOf(info, ie.X).ID {
-				// the key must not be reassigned and the slice not re-sliced in the body: keep it simple
-				reassigned := false
-				ast.Inspect(rs.Body, func(n ast.Node) bool {
-					if n != nil && assignsAny(info, n, map[types.Object]bool{o: true}) {
-						if _, blk := n.(*ast.BlockStmt); !blk {
-							reassigned = true
-						}
-					}
-					return !reassigned
-				})
-				return !reassigned
-			}
-		}
-	}
-	return false
-}
-
-func c19FindSubs(c *Ctx, fi *FuncInfo, g *FG, parents map[ast.Node]ast.Node, recv types.Object) []*c19Sub {
-	info := g.Info
-	var out []*c19Sub
-	ctxOf := func(n ast.Node) string {
-		for cur := parents[n]; cur != nil; cur = parents[cur] {
-			if is, ok := cur.(*ast.IfStmt); ok {
-				if fv := c19SelField(info, is.Cond); fv != nil && c19IsBoolType(fv.Type()) {
-					return fv.Name()
-				}
-			}
-			if _, ok := cur.(*ast.FuncDecl); ok {
-				break
-			}
-		}
-		return ""
-	}
-	isState := func(e ast.Expr) bool {
-		p, ok := c19Chain(info, e)
-		return ok && recv != nil && p.root == recv && len(p.path) > 0
-	}
-	for _, h := range g.Find(func(n ast.Node) bool {
-		switch t := n.(type) {
-		case *ast.BinaryExpr:
-			if t.Op != token.SUB || !c19IsUnsigned(info.TypeOf(t)) {
-				return false
-			}
-			_, isConst := constInt(info, t)
-			return !isConst
-		case *ast.AssignStmt:
-			return t.Tok == token.SUB_ASSIGN && len(t.Lhs) == 1 && c19IsUnsigned(info.TypeOf(t.Lhs[0]))
-		case *ast.IncDecStmt:
-			return t.Tok == token.DEC && c19IsUnsigned(info.TypeOf(t.X))
-		}
-		return false
-	}) {
-		sb := &c19Sub{pos: h.Node.Pos(), def: h.Loc, ctx: ctxOf(h.Node)}
-		switch t := h.Node.(type) {
-		case *ast.AssignStmt:
-			sb.isStmt = true
-			sb.a, sb.b = c19LinOf(info, t.Lhs[0]), c19LinOf(info, t.Rhs[0])
-			sb.text = types.ExprString(stripRecv(t.Lhs[0])) + " -= " + types.ExprString(stripRecv(t.Rhs[0]))
-			if isState(t.Lhs[0]) {
-				sb.sinks = []c19Sink{{h.Loc, t.Pos(), "the scroll state", "state"}}
-			} else {
-				sb.note = "decrement of a local"
-			}
-		case *ast.IncDecStmt:
-			sb.isStmt = true
-			sb.a, sb.b = c19LinOf(info, t.X), c19NewLin().addK(1)
-			sb.text = types.ExprString(stripRecv(t.X)) + "--"
-			if isState(t.X) {
-				sb.sinks = []c19Sink{{h.Loc, t.Pos(), "the scroll state", "state"}}
-			} else {
-				sb.note = "decrement of a local"
-			}
-		case *ast.BinaryExpr:
-			sb.a, sb.b = c19LinOf(info, t.X), c19LinOf(info, t.Y)
-			sb.text = types.ExprString(stripRecv(t.X)) + " - " + types.ExprString(stripRecv(t.Y))
-			var cur ast.Node = t
-			p := parents[cur]
-			for {
-				if pe, ok := p.(*ast.ParenExpr); ok {
-					cur, p = pe, parents[pe]
-					continue
-				}
-				break
-			}
-			switch pt := p.(type) {
-			case *ast.IndexExpr:
-				if pt.Index == cur {
-					sb.sinks = []c19Sink{{h.Loc, pt.Pos(), types.ExprString(stripRecv(pt)), "index"}}
-				} else {
-					sb.note = "indexed operand"
-				}
-			case *ast.SliceExpr:
-				if pt.X != cur {
-					sb.sinks = []c19Sink{{h.Loc, pt.Pos(), types.ExprString(stripRecv(pt)), "index"}}
-				}
-			case *ast.CallExpr:
-				if ty, ok := c19IsConversion(info, pt); ok && c19IsIntType(ty) && !c19IsUnsigned(ty) {
-					sb.sinks = []c19Sink{{h.Loc, pt.Pos(), "a conversion to " + ty.String(), "signed"}}
-				} else {
-					sb.note = "argument of " + types.ExprString(pt.Fun)
-				}
-			case *ast.AssignStmt:
-				for i, r := range pt.Rhs {
-					if r != cur || len(pt.Lhs) != len(pt.Rhs) {
-						continue
-					}
-					lhs := pt.Lhs[i]
-					if isState(lhs) {
-						sb.sinks = []c19Sink{{h.Loc, pt.Pos(), "the scroll state (" + types.ExprString(stripRecv(lhs)) + ")", "state"}}
-					} else if id, ok := lhs.(*ast.Ident); ok {
-						v := info.ObjectOf(id)
-						sb.text = id.Name + " := " + sb.text
-						nAssign := 0
-						for _, b := range g.Blocks {
-							for _, n := range b.Nodes {
-								if assignsAny(info, n, map[types.Object]bool{v: true}) {
-									nAssign++
-								}
-							}
-						}
-						for _, u := range g.Find(func(n ast.Node) bool { uid, ok := n.(*ast.Ident); return ok && info.Uses[uid] == v }) {
-							var uc ast.Node = u.Node
-							up := parents[uc]
-							for {
-								if pe, ok := up.(*ast.ParenExpr); ok {
-									uc, up = pe, parents[pe]
-									continue
-								}
-								if ce, ok := up.(*ast.CallExpr); ok {
-									if ty, ok := c19IsConversion(info, ce); ok && c19IsIntType(ty) {
-										if _, isIdx := parents[ce].(*ast.IndexExpr); isIdx {
-											uc, up = ce, parents[ce]
-											continue
-										}
-									}
-								}
-								break
-							}
-							switch ut := up.(type) {
-							case *ast.IndexExpr:
-								if ut.Index == uc {
-									sb.sinks = append(sb.sinks, c19Sink{u.Loc, ut.Pos(), types.ExprString(stripRecv(ut)), "index"})
-								}
-							case *ast.SliceExpr:
-								if ut.X != uc {
-									sb.sinks = append(sb.sinks, c19Sink{u.Loc, ut.Pos(), types.ExprString(stripRecv(ut)), "index"})
-								}
-							}
-						}
-						if nAssign != 1 && len(sb.sinks) > 0 {
-							sb.note = "the local " + id.Name + " holding an unsigned difference is assigned more than once"
-						}
-						if len(sb.sinks) == 0 {
-							sb.note = "local " + id.Name + " is not used as an index"
-						}
-					} else {
-						sb.note = "stored outside the scroll state"
-					}
-				}
-			case *ast.KeyValueExpr, *ast.CompositeLit:
-				sb.note = "field of a literal (a size constraint: vxfw layout contract, property C14)"
-			default:
-				sb.note = fmt.Sprintf("operand of %T", p)
-			}
-		}
-		out = append(out, sb)
-	}
-	return out
-}
-
-func (sb *c19Sub) terms() []*c19Term {
-	var out []*c19Term
-	for _, l := range []*c19Lin{sb.a, sb.b} {
-		for _, id := range l.ids() {
-			out = append(out, l.tm[id])
-		}
-	}
-	return out
-}
-
-func c19NodeTouches(fl *c19Flow, n ast.Node, terms []*c19Term) bool {
-	for _, ef := range fl.effectsOf(n) {
-		if ef.kind == 'x' {
-			return true
-		}
-		if ef.kind == 0 {
-			continue
-		}
-		for _, t := range terms {
-			if t.affected(ef.lhs) {
-				return true
-			}
-		}
-	}
-	return false
-}
-
-// c19ChangedBetween: is an operand written on some path from the subtraction to the use?
-func c19ChangedBetween(fl *c19Flow, g *FG, sb *c19Sub, use Loc) bool {
-	terms := sb.terms()
-	changed := false
-	g.walk(Loc{sb.def.B, sb.def.Idx + 1}, func(l Loc, n ast.Node) bool {
-		if l == use {
-			return false
-		}
-		if c19NodeTouches(fl, n, terms) && g.ReachesAvoiding(l, use, nil) {
-			changed = true
-		}
-		return true
-	}, nil)
-	return changed
-}
-
-// c19AtEntry: the statement is executed on entry, before anything that could change its operands.
-func c19AtEntry(fl *c19Flow, g *FG, sb *c19Sub) bool {
-	if sb.def.B != g.Blocks[0] {
-		return false
-	}
-	for i := 0; i < sb.def.Idx; i++ {
-		if c19NodeTouches(fl, sb.def.B.Nodes[i], sb.terms()) {
-			return false
-		}
-	}
-	return true
-}
-
-// c19LiftToCallers checks an entry requirement of a method (a - b >= 0 over receiver fields) at each call site.
-func c19LiftToCallers(c *Ctx, pk *packages.Package, callee *FuncInfo, calleeRecv types.Object, sb *c19Sub, skey string, bounds c19Bounds) {
-	info := pk.TypesInfo
-	nCalls := 0
-	for _, fi := range c.P.FuncsIn(shortPkg(pk.PkgPath)) {
-		g := c19Graph(c, fi)
-		if g == nil {
-			continue
-		}
-		// the method must only be called, never taken as a value
-		parents := c.P.Parents(pk)
-		ast.Inspect(fi.Decl.Body, func(n ast.Node) bool {
-			if sel, ok := n.(*ast.SelectorExpr); ok {
-				if s, ok := info.Selections[sel]; ok && s.Obj() == types.Object(callee.Obj) {
-					call, isCall := parents[sel].(*ast.CallExpr)
-					if s.Kind() != types.MethodVal || !isCall || unparen(call.Fun) != ast.Expr(sel) {
-						c.undecided("C19.c", skey+" <- "+fi.Name, sel.Pos(), "%s is used as a method value or expression; its callers cannot be enumerated", callee.Name)
-					}
-				}
-			}
-			return true
-		})
-		calls := g.Calls(func(fn *types.Func, call *ast.CallExpr) bool { return fn == callee.Obj })
-		if len(calls) == 0 {
-			continue
-		}
-		fl := c19NewFlow(c, g, bounds)
-		type cg struct {
-			h Hit
-			f *c19Form
-		}
-		var cgs []cg
-		for _, h := range calls {
-			nCalls++
-			call := h.Node.(*ast.CallExpr)
-			sel, ok := unparen(call.Fun).(*ast.SelectorExpr)
-			var base c19Path
-			if ok {
-				base, ok = c19Chain(info, sel.X)
-			}
-			if !ok {
-				c.undecided("C19.c", skey+" <- "+fi.Name, call.Pos(), "the receiver of the call is not an access path")
-				continue
-			}
-			rebase := func(l *c19Lin) (*c19Lin, bool) {
-				out := c19NewLin()
-				out.k = l.k
-				for _, id := range l.ids() {
-					t := l.tm[id]
-					p, ok := c19Chain(info, t.ex)
-					if !ok || p.root != calleeRecv {
-						return nil, false
-					}
-					for _, seg := range p.path {
-						if seg == "[]" {
-							return nil, false
-						}
-					}
-					np := c19Path{base.root, append(append([]string{}, base.path...), p.path...)}
-					nt := &c19Term{id: fmt.Sprintf("%p%s", np.root, joinDot(np.path)), ex: t.ex, paths: []c19Path{np}}
-					out.coef[nt.id] = l.coef[id]
-					out.tm[nt.id] = nt
-				}
-				return out, true
-			}
-			a, ok1 := rebase(sb.a)
-			b, ok2 := rebase(sb.b)
-			if !ok1 || !ok2 {
-				c.undecided("C19.c", skey+" <- "+fi.Name, call.Pos(), "the operands of %s are not fields of the receiver", sb.text)
-				continue
-			}
-			cgs = append(cgs, cg{h, fl.goalAt(fl.ge0(a.plus(b, -1)), h.Loc)})
-		}
-		fl.solve()
-		for _, x := range cgs {
-			fl.prove("C19.c", skey+" <- "+fi.Name, x.h.Node.Pos(), x.h.Loc, x.f, "the entry requirement of "+callee.Name+" ("+sb.text+" does not wrap)",
-				callee.Name+" decrements on entry; a call with the operand at 0 wraps scroll.top to 2^64-1 and the list draws nothing afterwards")
-		}
-	}
-	if nCalls == 0 {
-		c.okTrivial("C19.c", skey, sb.pos, "%s has no callers", callee.Name)
-	}
-}
-
-// ---------------------------------------------------------------------------------------------
-// C19.d — divisors
-// ---------------------------------------------------------------------------------------------
-
-func c19Divisors(c *Ctx) {
-	for _, pkgName := range []string{"vxfw/list", "widgets/list", "widgets/pager", "widgets/scrollbar"} {
-		pk := c.P.Pkg(pkgName)
-		if pk == nil {
-			c.undecided("C19.d", pkgName, 0, "package not found")
-			continue
-		}
-		info := pk.TypesInfo
-		bounds := c19WithLen(c19TypeBounds(c, pk))
-		for _, fi := range c.P.FuncsIn(pkgName) {
-			g := c19Graph(c, fi)
-			if g == nil {
-				continue
-			}
-			type div struct {
-				h Hit
-				d ast.Expr
-				f *c19Form
-			}
-			var divs []div
-			fl := c19NewFlow(c, g, bounds)
-			for _, h := range g.Find(func(n ast.Node) bool {
-				switch t := n.(type) {
-				case *ast.BinaryExpr:
-					return (t.Op == token.QUO || t.Op == token.REM) && c19IsIntType(info.TypeOf(t))
-				case *ast.AssignStmt:
-					return (t.Tok == token.QUO_ASSIGN || t.Tok == token.REM_ASSIGN) && len(t.Lhs) == 1 && c19IsIntType(info.TypeOf(t.Lhs[0]))
-				}
-				return false
-			}) {
-				var d ast.Expr
-				switch t := h.Node.(type) {
-				case *ast.BinaryExpr:
-					d = t.Y
-				case *ast.AssignStmt:
-					d = t.Rhs[0]
-				}
-				if v, ok := constInt(info, d); ok {
-					if _, whole := constInt(info, h.Node.(ast.Expr)); !whole {
-						c.check(v != 0, "C19.d", fi.Name+"/divisor "+types.ExprString(stripRecv(d)), d.Pos(), "constant non-zero divisor", "division by the constant 0")
-					}
-					continue
-				}
-				l := c19LinOf(info, d)
-				divs = append(divs, div{h, d, fl.goalAt(c19Or(fl.ge0(l.addK(-1)), fl.le(l.addK(1))), h.Loc)})
-			}
-			if len(divs) == 0 {
-				continue
-			}
-			fl.solve()
-			for _, dv := range divs {
-				fl.prove("C19.d", fi.Name+"/divisor "+types.ExprString(stripRecv(dv.d)), dv.d.Pos(), dv.h.Loc, dv.f, "divisor != 0", "integer division by zero panics")
-			}
-		}
-	}
+	c19WidgetsList(c)
+	c19Pager(c)
+	c19VxfwList(c)
+	c19Divisors(c)
+	if os.Getenv("C19_DEBUG") != "" {
+		for _, o := range c.Obs {
+			fmt.Printf("DEBUG %-10s %s [%s] %s\n", o.Status, o.Key, o.Pos, o.Reason)
+		}
+	}
+	c19C = nil
 }
